@@ -12,1141 +12,2484 @@ Definition show_fres (r : fres) : string :=
   end.
 Definition check (rs : list rune) : string := digest (show_fres (format_res rs)).
 Definition full (rs : list rune) : string := show_fres (format_res rs).
-Eval vm_compute in ("<<<M88>>>" ++ check (runes_of_ascii "options  { BodyLength
-=
-    string; trueish	=""it's"" i8i8
-    =  ""// no comment""
-    // trailing space 
-    roots
-// a // b
-// packet A { u8 x, }
-=// `tick` ""quote"" 'q'
-""" ++ [28040; 24687]%N ++ runes_of_ascii """ ;// a // b
-falsey = '\x00' ; } packet metadata{
-    packetx
-    { repeat rootA x_y_z `tab	here` , repeat pack
-, Logon {
-    u16 msg_type , u8 BodyLength
-`
-`,
-zchar[
-3 ] int  ,} ,
-a1
-T, }
-, // `tick` ""quote"" 'q'
-repeat f32 o `crlf
-line`
-, i32 rootA, int32  matchKey , @leftPad
-// a // b
-// @lengthOf(
-( )
-x_y_z {	match body	as	u8x
-    { [ ""{,}"" ]:u8x	, 3:
-u8x , 4294967296: As ,
-[ ""CRC32"" ]:A
-,
-255 // packet A { u8 x, }
-: body
-    //
-    , // c
-42
-    :
-x_y_z }
-, } , repeat
-body float
-, } // trailing space 
-packet trueish
-{ stringy @lengthOf( float )	`{ , }`
-,repeat// packet A { u8 x, }
-i64_ ,
-    uint16 string_
-    // `tick` ""quote"" 'q'
-    @calculatedFrom(
-""\" ++ [233]%N ++ runes_of_ascii """)
-`
-`	, // a // b
-@tag( 0123456789)char[
-    //x
-    4294967296 ]
-    calculatedFrom @lengthOf( int )`line1
-line2`	, // packet A { u8 x, }
-match rootA as asx
-{	""\" ++ [233]%N ++ runes_of_ascii """: f32a, ""\n"" :
-    rootA [ ""a\\""
-//
-//
-, 0123456789 ] : crc
-,1 : msg_type , ""a	b"" :stringy// packet A { u8 x, }
-, }
-    // " ++ [27880; 37322]%N ++ runes_of_ascii "
-    ,repeat len	{ string_{i16 _x , _x { repeat uint8x a1
-, char[ 42
-    ]	zchar
-    `say ""hi""` , zchar[ 7  ] uint8x ,
-}
-    ,repeat i8i8 body, }
-    // " ++ [128512]%N ++ runes_of_ascii " emoji
-    , uint8
-T	@lengthOf(
-repeatCount ), } ,}root packet asx { @calculatedFrom(	""x y""
-)
-repeat pack ,repeat string_ { u8 metadata
-,} ,  @calculatedFrom( ""abc"" )	roots
-@lengthOf(
-    T
-) `` , match asx as uint8x
-{ 3: u8x, }
-    // a // b
-    ,// trailing space 
-u8x@calculatedFrom( ""{,}"" ) , } packet o // " ++ [128512]%N ++ runes_of_ascii " emoji
-{ string Logon ,charz metadata , match// c
-len as
-float{
-255
-    :
-    //	t
-    uint8x , ""CRC32"": As ,
-    1
-    : body , 7
-:	options1 ,[	""" ++ [128512]%N ++ runes_of_ascii """,""it's"" //
-]:
-    repeatCount}, @leftPad ( ) @calculatedFrom( ""x y"" )  @leftPad(  ' ' )repeat lengthOf,zchar[
-42  ]
-    Logon@calculatedFrom(// packet A { u8 x, }
-"""" ), }
-//x
-")).
-Eval vm_compute in ("<<<M1484>>>" ++ check (runes_of_ascii "
-
-  packet
-    tag  { repeat stringy
-{repeat  i32	lengthOf 
-,// trailing space 
-    string
-
-    msg_type// " ++ [27880; 37322]%N ++ runes_of_ascii "
-	@calculatedFrom(  // " ++ [128512]%N ++ runes_of_ascii " emoji
-    	""// no comment""
-)
-
-    `" ++ [233]%N ++ runes_of_ascii "`	,zchar 
-{ x 
-@calculatedFrom( """ ++ [28040; 24687]%N ++ runes_of_ascii """
-)
-
-    ,
-repeat
-
-u8x
-
-    len	, zchar[ 255
-
-]  i8i8 , } ,
-x @calculatedFrom(
-
-    ""CRC32"" ) ``
-
-    ,
-	}  ,
-	packetx 
-//	t
-  //	t
-u8x ,
-@calculatedFrom( 
-""packet""  )zchar[007	] body
-    @calculatedFrom(
-    ""CRC32""
-)
-
-,
-@lengthOf(
-
-x_y_z  /// triple
-	)  char[]
-int `" ++ [28040; 24687; 31867; 22411]%N ++ runes_of_ascii "` ,  zchar[
-	42
-    ]
-
-    Logon
-    @calculatedFrom( ""// no comment""),int8
-    f32a  ,
-    }packet 
-As  {
-@calculatedFrom(
-""it's""
-	)	int64
-msg_type
-    @calculatedFrom(  ""a\""b""
-)	`it's`
-    ,
-	i8i8 pack
-, tag { i64 _x, match As
-    as
-f32a
-{  // trailing space 
-
-007	:
-_x ,
-0123456789
-:
-metadata
-
-,
-	}
-, } ,
-
-@lengthOf(	body )
-
-    repeat 
-u8
-f32a
-    ``
-,
-	char[] Pad
-
-    `line1
-line2`,
-@lengthOf(
-msg_type )  string
-len  ,	@lengthOf(
-    a1
-
-    ) @tag(
-	00  )
-	@rightPad
-	(
-    '\x00') 
-char[
-
-65535
-
-]
-Header	,  // trailing space 
-	@calculatedFrom(  
-      // a // b
-
-""1""
-
-)
-	@calculatedFrom(
-	""a\\""  )
-
-// @lengthOf(
-      @lengthOf(  body 
-	    //
-	// " ++ [27880; 37322]%N ++ runes_of_ascii "
-    )
-
-i8 
-x_y_z
-    ,
-}root packet a1 { 
-} packet A{
-
-} 
-	// " ++ [128512]%N ++ runes_of_ascii " emoji
-    packet 
-calculatedFrom {  }
-")).
-Eval vm_compute in ("<<<M2029>>>" ++ check (runes_of_ascii "packet zchar {
-    i8 uint8x `a\`,
-    match leftPad as matchKey {
-        007 : f32a,
-        7 : falsey,
-        3 : _x,
-        [""1""] : u8x,
-        //	t
-        ""it's"" : i8i8,
-        10 : pack,
-    },
-    repeat string rootA `say ""hi""`,
-    repeat int32 repeatCount `" ++ [233]%N ++ runes_of_ascii "`,
-    @lengthOf(calculatedFrom)
-    zchar[4294967296] T,
-    @tag(4294967296)
-    crc @calculatedFrom(""""),
-    @calculatedFrom(""abc"")
-    u8x @lengthOf(o) `crlf
-    line`,
+Eval vm_compute in ("<<<M3837>>>" ++ check (runes_of_ascii "options {
+    LittleEndian = true;
+    StringPrefixLenType = u8;
+    ArrayPrefixLenType = u16;
+    FixedStringPadChar = '0';
+    JavaPackage = ""com.example.msg"";
+    GoPackage = ""msg"";
+    GoModule = ""example.com/msg"";
 }
 
-packet T {
-    i64 repeatCount,
-    calculatedFrom pack,
-    @calculatedFrom(""`tick`"")
-    f32a Foo,
-    match body as string_ {
-        ""packet"" : uint8x,
-        // @lengthOf(
-        """ ++ [128512]%N ++ runes_of_ascii """ : body,
-        007 : Logon,
-        ""it's"" : leftPad,
-        [""x y"", 255, ""\" ++ [233]%N ++ runes_of_ascii """, 1, 0123456789] : options1,
-    },
-    @rightPad('\x00')
-    // packet A { u8 x, }
-    match As as roots {
-        4294967296 : len,
-        """ ++ [28040; 24687]%N ++ runes_of_ascii """ : msg_type,
-    },
-    f32 chars,
-    // `tick` ""quote"" 'q'
-    // @lengthOf(
-    repeat calculatedFrom,
-    @calculatedFrom(""x y"")
-    f32 roots `{ , }`,
+MetaData Meta {
+    u32 SeqNum `sequence number`,
+    char[8] Symbol `symbol`,
+    zchar[5] ZSym `z symbol`,
+    string Note,
+    Symbol AltSymbol `alias of symbol`,
+    f64 Price,
 }
 
-root packet calculatedFrom {
-}")).
-Eval vm_compute in ("<<<M101>>>" ++ check (runes_of_ascii "MetaData
-    asx
-{ }
-    options{
-body =
-//x
-// @lengthOf(
-char[] ;// @lengthOf(
-repeatCount =true ;
-    packetx= ""a\""b""; float
-=
-""x y"" ; zchar
-    // @lengthOf(
-    = ""\" ++ [233]%N ++ runes_of_ascii """ ; } MetaData _x{
-u16 falsey  `` , } root packet
-    metadata {  }	packet Foo { repeat
-    // trailing space 
-    u128
-    , @tag(// trailing space 
-7
-) uint16
-MetaDataX
-    , @tag(1 )
-    /// triple
-    falsey `say ""hi""` , @rightPad ( //	t
-) @tag(3 ) u , @lengthOf( roots// " ++ [128512]%N ++ runes_of_ascii " emoji
-) match body as repeatCount
-{ ""CRC32"" // " ++ [27880; 37322]%N ++ runes_of_ascii "
-: asx  , 42	:  msg_type
-} ,// packet A { u8 x, }
-stringy {repeat char[
-    // c
-    3
-] uint8x ,	match
-Logon
-as	A{ ""abc"" :i8i8 , }  ,match BodyLength as len
-    { [0123456789 ,
-//
-// @lengthOf(
-007
-    ,4294967296,""{,}""
-]:// " ++ [128512]%N ++ runes_of_ascii " emoji
-Foo , } //	t
-, } , @leftPad ( '0'  ) uint8x
-@lengthOf(i8i8) ,//	t
-_x
-    {repeat x  `line1
-line2` , }, @tag( 42 )
-falsey
-    // trailing space 
-    u128 // trailing space 
-, int64 MetaDataX ,}
-")).
-Eval vm_compute in ("<<<M1603>>>" ++ check (runes_of_ascii "options {
-    LittleEndian = false;
-    StringPrefixLenType = u16;
-    ArrayPrefixLenType = u64;
-    FixedStringPadFromLeft = true;
-    FixedStringPadChar = ' ';
+packet Inner {
+    u8 a,
+    i16 b,
+    string c,
+}
+
+packet Inner2 {
+    u8 a2,
+    char[3] c2,
 }
 
 packet Logon {
-    u16 Tail,
-    repeat string x,
-    i16 count,
+    u8 x,
+    string user,
+    repeat u16 codes,
+}
+
+packet Logout {
+    u16 reason,
+}
+
+packet Empty {
+}
+
+root packet Msg {
+    u8 su8,
+    uint8 luint8,
+    u16 su16,
+    uint16 luint16,
+    u32 su32,
+    uint32 luint32,
+    u64 su64,
+    uint64 luint64,
+    i8 si8,
+    int8 lint8,
+    i16 si16,
+    int16 lint16,
+    i32 si32,
+    int32 lint32,
+    i64 si64,
+    int64 lint64,
+    f32 sf32,
+    float32 lfloat32,
+    f64 sf64,
+    float64 lfloat64,
+    char[6] fsplain,
     @leftPad('0')
-    char[3] Note,
-}
-
-packet Fill {
-}
-
-packet Heartbeat {
-}
-
-packet Reject {
-    string msgKind,
-    repeat Logon,
-    InFlags25 {
-        repeat InPrice29 {
-            u8 price,
-            Logon,
-            repeat char[1] Note,
+    char[4] fs0,
+    @rightPad('0')
+    char[5] fs1,
+    @leftPad(' ')
+    char[6] fs2,
+    @rightPad(' ')
+    char[7] fs3,
+    @leftPad('\x00')
+    char[8] fs4,
+    @rightPad('\x00')
+    char[9] fs5,
+    @leftPad()
+    char[10] fs6,
+    @rightPad()
+    char[11] fs7,
+    zchar[7] fz,
+    @leftPad('0')
+    zchar[3] fzl0,
+    string s1 `doc`,
+    char[] s2,
+    Inner,
+    Sub {
+        u8 q,
+        string w,
+        Deep {
+            u16 z,
+            repeat i32 zs,
         },
-        char[] x,
-        Fill,
     },
-    repeat Heartbeat,
+    repeat u8 ru8,
+    repeat u16 ru16,
+    repeat u32 ru32,
+    repeat u64 ru64,
+    repeat i8 ri8,
+    repeat i16 ri16,
+    repeat i32 ri32,
+    repeat i64 ri64,
+    repeat f32 rf32,
+    repeat f64 rf64,
+    repeat string rstr,
+    repeat char[] rstr2,
+    repeat char[3] rfs,
+    repeat zchar[3] rfz,
+    repeat Inner2,
+    repeat Grp {
+        u8 k,
+        char[2] v,
+    },
+    SeqNum,
+    SeqNum seq2,
+    repeat SeqNum seqs,
+    Symbol,
+    AltSymbol alt,
+    ZSym,
+    Note,
+    repeat Symbol syms,
+    Price px,
+    u16 MsgType,
+    u32 BodyLen @lengthOf(Body),
+    match MsgType as Body {
+        1 : Logon,
+        [2, 3] : Logout,
+        7 : Logon,
+        9 : Empty,
+    },
+    u32 Checksum @calculatedFrom(""CRC32""),
+}")).
+Eval vm_compute in ("<<<M3733>>>" ++ check (runes_of_ascii "options
+{ 
+}  root packet	msg_type
+{	match u8x	// `tick` ""quote"" 'q'
+    as
+
+zchar  {
+[  0 ,  00 ]
+
+:metadata //x
+  ,	10
+:
+
+    Z9_,""a\""b"" :
+//	t
+      chars ,
+
+0
+:	uint8x , 
+    // " ++ [27880; 37322]%N ++ runes_of_ascii "
+    007 :
+	chars	/// triple
+	,}, 
+A
+@lengthOf(
+	Pad  // c
+	  )  ,	@leftPad
+
+    (' '
+	)	@leftPad(' '
+)  @tag(  00
+)
+int8  Pad @calculatedFrom( ""x y"" )
+,  }root
+packet 
+	// trailing space 
+    msg_type
+    {  i64
+	uint8x
+
+,
+@leftPad	(
+	'\x00' )
+    Z9_ @calculatedFrom(
+    """"
+)	,Pad
+
+    `two words` , }packet
+f32a
+{  zchar[ 
+4294967296
+
+    ] // @lengthOf(
+u, @leftPad (
+	'0' 
+)
+
+repeat
+uint64  zchar 
+`crlf
+line`	,
+        // 50% %s
+
+int16  msg_type
+	`100% of %d`	,  @lengthOf(  crc
+    )
+
+calculatedFrom{ 
+// packet A { u8 x, }
+    	// " ++ [27880; 37322]%N ++ runes_of_ascii "
+  Header
+    { matchKey @lengthOf( 
+falsey  )	/// triple
+      ,match  int as  
+      /// triple
+
+//
+	BodyLength{ 	 // 50% %s
+    7:packetx	,
+
+    """ ++ [28040; 24687]%N ++ runes_of_ascii """ :
+msg_type
+,}	, 
+x @calculatedFrom(
+
+    ""a\""b""
+    ) ,match
+    body as
+    len{	""`tick`""
+	:
+
+    body
+,""" ++ [128512]%N ++ runes_of_ascii """
+:
+roots
+    ,
+	// trailing space 
+  	//
+4294967296	: 
+packetx  ,
+
+    /// triple
+    // @lengthOf(
+		""a\""b"" :
+	matchKey
+
+    , 
+},
+	}
+	,
+} 
+,
+repeat
+i8i8
+
+    body
+	, 
+repeat As
+
+crc ,match  uint8x  as
+    tag
+{ [ ""a\\"" ,7  , ""x y""
+
+]
+:float,	""a	b"" 
+
+// @lengthOf(
+	  :
+	A 
+""CRC32""
+:	rootA,
+
+    [ 
+  //	t
+
+""a\""b""
+
+    , ""CRC32""
+
+,  3  ,	""it's"", 
+42
+,  // `tick` ""quote"" 'q'
+		65535
+,""""]
+
+:  options1 
+, [ 1
+
+]
+:
+Packet
+, } , match string_ as	u8x
+{
+
+0123456789
+
+:
+	zchar  ,  
+  //x
+
+	}
+    ,
+zchar	@calculatedFrom(
+"""" )`line1
+line2`,
+
+repeat  T {	metadata @calculatedFrom(
+    ""x y"" )
+
+, match
+	a1
+    as
+    metadata { 4294967296:
+	options1
+
+    ,  ""x y"" 
+:  i8i8
+} , repeat
+    leftPad {
+char[
+42 ] 	 //
+  float
+
+    ,	// a // b
+} 
+, 
 }
 
-root packet Order {
-    InNote88 {
-        repeat i32 Acct,
-        repeat i16 clOrdID,
-        repeat Logon,
+, 
+} 
+options{i64_  =true	}
+")).
+Eval vm_compute in ("<<<M709>>>" ++ check (runes_of_ascii "MetaData i8i8{zchar leftPad  , _x x ,
+    u roots ``, }
+    // " ++ [27880; 37322]%N ++ runes_of_ascii "
+    packet leftPad {
+int16 Z9_
+    ,	@calculatedFrom( """ ++ [128512]%N ++ runes_of_ascii """) uint64 leftPad`u8 x,`
+// `tick` ""quote"" 'q'
+// @lengthOf(
+, @leftPad (	'\x00' )packetx @calculatedFrom(  ""1"")`say ""hi""` , leftPad @calculatedFrom(""\" ++ [233]%N ++ runes_of_ascii """ ) ,
+@lengthOf(
+MetaDataX	) zchar[ 3]	msg_type, } packet
+    matchKey { string_ { repeat u32
+    roots
+    // `tick` ""quote"" 'q'
+    `two words` , A
+    // packet A { u8 x, }
+    @calculatedFrom(	""// no comment"" )  ,
+    repeat x
+// trailing space 
+//x
+{
+match
+    A
+    as leftPad { [ 65535 , 65535, ""1"" ,
+""" ++ [128512]%N ++ runes_of_ascii """
+    , 10
+, ""CRC32"" ]
+    :
+BodyLength,
+// " ++ [27880; 37322]%N ++ runes_of_ascii "
+// " ++ [128512]%N ++ runes_of_ascii " emoji
+""" ++ [128512]%N ++ runes_of_ascii """ : string_ , """ ++ [28040; 24687]%N ++ runes_of_ascii """ : x_y_z , // " ++ [128512]%N ++ runes_of_ascii " emoji
+7
+: metadata 1
+    : leftPad , 0 :
+roots
+,  },  repeat
+    i64 // c
+Logon
+// 50% %s
+// trailing space 
+,calculatedFrom , repeat// `tick` ""quote"" 'q'
+u64
+/// triple
+// " ++ [27880; 37322]%N ++ runes_of_ascii "
+MetaDataX	`{ , }` , },repeat chars pack `tab	here`,
+// a // b
+// " ++ [128512]%N ++ runes_of_ascii " emoji
+},
+    @calculatedFrom(""a\\""
+) @rightPad ( ' '
+    )@rightPad
+    (	) Logon matchKey
+, body i8i8 `it's`, @calculatedFrom( ""1"" ) string As @lengthOf(
+Packet )
+, @lengthOf( matchKey
+    ) repeat tag	{ matchKey{ repeat i16 lengthOf `// not a comment` , char[] Logon @calculatedFrom(""a\\"" ) `// not a comment`
+    , falsey {
+zchar[
+    10 ]	int @lengthOf(len
+) `100% of %d` , match
+    // trailing space 
+    Foo as
+T {[
+""CRC32""  ,""{,}"", 42 ,
+    10 ]:
+uint8x
+,	3 :BodyLength,""a	b""
+: rootA 0
+:
+a1 , // " ++ [128512]%N ++ runes_of_ascii " emoji
+} ,
+    }	, } ,} , T,
+    } options
+{	Logon = 3 int =
+10
+i64_	= ""it's"" ; }")).
+Eval vm_compute in ("<<<M996>>>" ++ check (runes_of_ascii "// a // b
+MetaData stringy{ _x
+    o, // 50% %s
+string o
+, // `tick` ""quote"" 'q'
+} packet MetaDataX { match lengthOf as falsey {
+    // a // b
+    """ ++ [128512]%N ++ runes_of_ascii """ : Packet , // `tick` ""quote"" 'q'
+""CRC32"" : MetaDataX	,	0
+    : calculatedFrom
+, } , @tag( 00
+    ) match
+    leftPad as uint8x { [ // " ++ [27880; 37322]%N ++ runes_of_ascii "
+""a\""b""
+, 00,
+""a\\"" ,""\n"" , 42 ] :T
+,	} ,
+    u64 Foo @lengthOf( tag ) `
+` , Pad
+, @lengthOf( f32a )
+@calculatedFrom( """ ++ [28040; 24687]%N ++ runes_of_ascii """	) @rightPad ( ' ' )
+    a1
+,  int8 chars `line1
+line2` ,
+    match
+Packet
+    as Z9_ { 42 :
+// c
+//x
+metadata , } ,	@tag( 0123456789 ) //
+uint8 As ,
+}
+// trailing space 
+// packet A { u8 x, }
+packet//
+Foo  { int64 BodyLength@calculatedFrom(
+    ""`tick`"" ) // " ++ [27880; 37322]%N ++ runes_of_ascii "
+, float32
+// " ++ [128512]%N ++ runes_of_ascii " emoji
+// trailing space 
+string_ // a // b
+,	repeat char[	10 ]
+    i8i8
+``, @tag(
+42 )@lengthOf(u8x )// `tick` ""quote"" 'q'
+u64
+matchKey
+    @calculatedFrom(	""// no comment"" )
+`doc`	,
+@tag(
+65535
+    //x
+    )
+int8 calculatedFrom , @lengthOf(
+    metadata )
+    match u128 as	leftPad
+    {42 : u8x
+    , """ ++ [28040; 24687]%N ++ runes_of_ascii """ :
+    x_y_z // `tick` ""quote"" 'q'
+""" ++ [28040; 24687]%N ++ runes_of_ascii """
+// trailing space 
+// c
+:u8x	, ""packet"" // packet A { u8 x, }
+:
+packetx
+""`tick`""
+    : Foo,
+    } , As
+@calculatedFrom( ""packet""), @lengthOf( u8x ) x @calculatedFrom( ""x y""),	calculatedFrom{ trueish	,// a // b
+} ,
+    i32//	t
+u128
+`tab	here`
+    , } options { } packet roots
+{ } // " ++ [27880; 37322]%N)).
+Eval vm_compute in ("<<<M920>>>" ++ check (runes_of_ascii "packet metadata
+    //x
+    { // a // b
+@tag( 0123456789	)
+repeat options1
+    , rootA{
+u32 x_y_z `two words` , u8
+    // packet A { u8 x, }
+    options1 `" ++ [28040; 24687; 31867; 22411]%N ++ runes_of_ascii "`// " ++ [27880; 37322]%N ++ runes_of_ascii "
+, } // packet A { u8 x, }
+, @lengthOf( Header )string Pad
+@calculatedFrom(""a\\""
+) `" ++ [233]%N ++ runes_of_ascii "`
+,match u as pack { [ 255,
+""" ++ [233]%N ++ runes_of_ascii "t" ++ [233]%N ++ runes_of_ascii """ ,
+    1 ] : packetx , [3
+    ]// " ++ [128512]%N ++ runes_of_ascii " emoji
+:
+    //
+    stringy ,7 :
+chars, [""a	b""] :leftPad 3 : matchKey  ,""a\""b"": i64_ },
+    @tag(
+00 ) a1 options1
+`crlf
+line` , @tag(
+42) string Logon @calculatedFrom( ""\" ++ [233]%N ++ runes_of_ascii """ ), @lengthOf(	Foo ) @calculatedFrom( ""// no comment"" // 50% %s
+)@calculatedFrom( ""packet"")int16 Header `u8 x,` ,stringy , }// @lengthOf(
+packet o{ repeat
+i16
+// c
+// " ++ [128512]%N ++ runes_of_ascii " emoji
+T
+    `two words` , @tag( 7)a1
+    @lengthOf(asx
+) `tab	here`, @tag( 7 )@calculatedFrom( ""a	b""
+) char[
+    65535]asx // " ++ [27880; 37322]%N ++ runes_of_ascii "
+@calculatedFrom( ""a\\""
+) , } packet	metadata { } packet
+falsey { char[] calculatedFrom@lengthOf( falsey
+    // `tick` ""quote"" 'q'
+    )
+`a\`
+,@calculatedFrom(""\n"" ) repeat char[] o`// not a comment`
+    /// triple
+    ,
+    char[] a1 , o
+    @calculatedFrom(
+""packet"" ) , lengthOf  , @lengthOf(	x_y_z
+)
+repeat i8 calculatedFrom `line1
+line2`
+    ,
+i64 pack // trailing space 
+, @tag(
+007
+) @rightPad
+    (' ' ) f32a @lengthOf(
+len ) ,  }
+")).
+Eval vm_compute in ("<<<M854>>>" ++ check (runes_of_ascii "packet
+    string_ { char[1 ] u8x ,
+}
+root
+packet a1 {@tag( 4294967296
+)repeat
+msg_type
+    options1 `tab	here` ,
+    // packet A { u8 x, }
+    char
+uint8x `" ++ [233]%N ++ runes_of_ascii "`,@calculatedFrom(""it's""  )
+    // " ++ [128512]%N ++ runes_of_ascii " emoji
+    float64
+float `u8 x,`
+// 50% %s
+//x
+, @rightPad ( ' ' )	repeat
+    float { zchar[
+    4294967296 ]
+A ,} ,
+    // " ++ [128512]%N ++ runes_of_ascii " emoji
+    int8
+    float `100% of %d`
+//	t
+// a // b
+,zchar i64_ , Header { // trailing space 
+match rootA as
+//
+// a // b
+T {
+    [ 1 , 3 , 1] : leftPad 3
+    :
+/// triple
+//
+tag ,
+}, float// trailing space 
+,
+    o ,lengthOf{ match
+// c
+// `tick` ""quote"" 'q'
+Header as	Foo { 255  :  i64_ ""packet""
+: packetx , 65535
+    : options1 } ,	string
+    float @lengthOf( Z9_ )
+    , string_`two words` , match
+    calculatedFrom as falsey { """ ++ [128512]%N ++ runes_of_ascii """ :As ,
+    ""packet"" : calculatedFrom
+,
+[ 3 ]
+: repeatCount// packet A { u8 x, }
+, 3 : f32a ,  42 :	float ,0123456789
+    //x
+    : calculatedFrom
+} , // `tick` ""quote"" 'q'
+},
+}, @tag( 65535
+)
+i8  _x , zchar[1 ]
+    chars
+,  Packet , }
+    packet
+    x_y_z { }  MetaData
+    len{// trailing space 
+char[] asx
+    ,i32 T `
+` , uint8x
+Header
+`" ++ [233]%N ++ runes_of_ascii "` ,
+    }
+// `tick` ""quote"" 'q'
+")).
+Eval vm_compute in ("<<<M488>>>" ++ check (runes_of_ascii "MetaData // a // b
+T { i16
+    zchar ,// trailing space 
+}
+    packet stringy // c
+{ @leftPad (
+    '0' // 50% %s
+)
+    int16 repeatCount`100% of %d`
+    ,
+    @leftPad ( '0'
+) @rightPad (' '  ) @calculatedFrom(""{,}"" ) repeat
+u8x , int8
+    // packet A { u8 x, }
+    Packet
+    ``
+    ,int64
+asx  @calculatedFrom( ""\n"")
+`it's` ,int16 int `it's` , } packet u128
+{ u Packet ``, }// " ++ [27880; 37322]%N ++ runes_of_ascii "
+packet string_ // a // b
+{ // trailing space 
+} root packet x{ @calculatedFrom(	""a	b"") @lengthOf( rootA
+    )@leftPad
+(' ' ) repeat
+    len `tab	here`
+// packet A { u8 x, }
+//x
+,
+char[ 65535 //x
+] lengthOf @calculatedFrom( """" ) `{ , }`	, match _x // trailing space 
+as i8i8	{  [
+""x y""
+    ]
+    :
+charz ,  4294967296 : x_y_z, }
+,	@calculatedFrom( ""CRC32"" )As	_x , @rightPad// a // b
+(
+'\x00'  ) @tag(0123456789	) @calculatedFrom( ""it's"")
+zchar[ 3 ] f32a  `doc`, @calculatedFrom( ""a\\"" // @lengthOf(
+) match rootA as
+len {  [
+    0123456789 , // a // b
+""`tick`"" ,7 , // " ++ [27880; 37322]%N ++ runes_of_ascii "
+007
+// @lengthOf(
+//	t
+, ""it's"" , 007 ]: body ,// packet A { u8 x, }
+}
+    , // trailing space 
+}
+// " ++ [27880; 37322]%N ++ runes_of_ascii "
+")).
+Eval vm_compute in ("<<<M3797>>>" ++ check (runes_of_ascii "packet int {
+    // packet A { u8 x, }
+    @tag(00)
+    repeat zchar[65535] crc,
+    repeat u32 body `it's`,
+    @calculatedFrom(""x y"")
+    match zchar as T {
+        [""// no comment"", 7] : uint8x,
+        007 : Header,
+        ""{,}"" : BodyLength,
+        ""packet"" : int,
+        [""abc"", 1, ""a\\"", ""packet""] : u128,
+        [""abc""] : string_,
+        // c
     },
-    u16 tag7,
-    match tag7 as Body {
-        [14, 22] : Logon,
-        55 : Heartbeat,
-        93 : Reject,
-        13 : Fill,
+    msg_type a1 `" ++ [233]%N ++ runes_of_ascii "`,
+    @lengthOf(calculatedFrom)
+    repeat i32 asx,
+    @calculatedFrom(""{,}"")
+    //x
+    @lengthOf(x)
+    @rightPad('0')
+    repeat i32 a1,
+    float32 int @lengthOf(lengthOf) `a\`,
+    @tag(255)
+    i32 Z9_,
+}// packet A { u8 x, }
+
+packet Z9_ {
+    rootA a1 `doc`,
+    Header MetaDataX `u8 x,`,
+}// " ++ [128512]%N ++ runes_of_ascii " emoji
+
+root packet uint8x {
+    @lengthOf(falsey)
+    // 50% %s
+    @tag(1)
+    @lengthOf(pack)
+    i16 calculatedFrom @calculatedFrom(""1""),
+}
+
+MetaData i64_ {
+    uint8 int,
+    string falsey,
+    f64 u128,
+}
+
+packet x_y_z {
+    @calculatedFrom(""" ++ [233]%N ++ runes_of_ascii "t" ++ [233]%N ++ runes_of_ascii """)
+    repeat _x {
+        lengthOf @calculatedFrom(""x y""),
     },
 }")).
-Eval vm_compute in ("<<<M1538>>>" ++ check (runes_of_ascii "options {
+Eval vm_compute in ("<<<M369>>>" ++ check (runes_of_ascii "root	packet int {
+    char[
+    4294967296 ]
+Pad ,
+    }
+//
+// @lengthOf(
+packet MetaDataX { @lengthOf( string_ ) @tag(  1 )
+match
+    // " ++ [128512]%N ++ runes_of_ascii " emoji
+    repeatCount as
+leftPad { 007
+    :
+    MetaDataX ,
+}  , @rightPad
+    ( ' ' )
+    @tag( 4294967296)
+zchar[255 ] chars //x
+,
+    //	t
+    @tag( 7
+) match
+    trueish
+as matchKey
+{
+    [	10
+    ]  :zchar [1
+    ]
+    :
+    // a // b
+    x, 4294967296 : falsey ,[
+    ""packet""
+/// triple
+// trailing space 
+,	""`tick`"" , ""\n"" , 007 , 255 , ""`tick`"" //	t
+, """ ++ [28040; 24687]%N ++ runes_of_ascii """ ]
+:	f32a,
+    [	4294967296
+    // c
+    ,
+    ""1"", ""a\\""
+    // " ++ [128512]%N ++ runes_of_ascii " emoji
+    , ""it's""
+    ,""`tick`""
+    , 00 ,	10] :matchKey,	0
+:
+    int ,}, zchar[
+    00
+] msg_type , @tag(
+    3 ) pack @calculatedFrom(
+""CRC32"" ) ,
+msg_type
+// c
+// " ++ [128512]%N ++ runes_of_ascii " emoji
+lengthOf, MetaDataX{	float {
+repeat	i64_ , }  , int BodyLength ,}
+    ,char[] crc`// not a comment`, char[]o @calculatedFrom(
+""CRC32"" ), // `tick` ""quote"" 'q'
+i16 As
+@lengthOf( len )
+`" ++ [233]%N ++ runes_of_ascii "`	, }
+")).
+Eval vm_compute in ("<<<M692>>>" ++ check (runes_of_ascii "MetaData body
+{
+body pack
+`tab	here` ,}packet
+u8x{ repeat char[ // c
+007
+//	t
+//	t
+]Header // a // b
+`a\` ,
+}root packet f32a {
+    @calculatedFrom(
+"""" )
+    @calculatedFrom(
+    ""`tick`"" ) @calculatedFrom( ""1"" )
+    uint8x
+    @calculatedFrom(  ""a\\""	)
+    `100% of %d` , }root packet Header { @lengthOf(	u8x
+)//x
+char[]u8x @calculatedFrom(""\n"")
+    ,
+@lengthOf( Pad )
+i8 i64_
+// trailing space 
+// 50% %s
+@calculatedFrom(""CRC32""
+// trailing space 
+// packet A { u8 x, }
+) , uint64 a1 @lengthOf( //
+falsey
+    //
+    ) , @leftPad (	'\x00'
+    )
+@leftPad
+( '0' ) @leftPad	(  '0' )
+    repeat f32
+// packet A { u8 x, }
+// trailing space 
+Header
+`// not a comment` , @calculatedFrom( """ ++ [233]%N ++ runes_of_ascii "t" ++ [233]%N ++ runes_of_ascii """ ) i32 // 50% %s
+f32a @lengthOf(
+// 50% %s
+// a // b
+T ) , @leftPad
+(
+) repeat
+//
+// 50% %s
+Packet ,
+    //
+    Logon ,
+    @tag( //	t
+255) string chars
+,rootA	Header,repeat i8i8 Foo
+`" ++ [233]%N ++ runes_of_ascii "`
+    ,	}")).
+Eval vm_compute in ("<<<M4043>>>" ++ check (runes_of_ascii "MetaData asx {
+    msg_type leftPad,
+    roots T `{ , }`,
+}
+
+root packet MetaDataX {
+    i16 u @calculatedFrom(""packet""),
+    match As as chars {
+        ""a	b"" : metadata,
+        [
+            ""a	b"", ""1"", ""// no comment"", 0123456789, """",
+            ""x y"", 00, 0
+        ] : x,
+        ""packet"" : stringy,
+        10 : Logon,
+        // " ++ [27880; 37322]%N ++ runes_of_ascii "
+        // a // b
+        [7, 4294967296] : calculatedFrom,
+        ""it's"" : matchKey,
+    },
+    uint32 trueish ``,
+    string string_,
+}
+
+packet Foo {
+    Foo @lengthOf(f32a),
+    repeat metadata {
+        // c
+        // " ++ [27880; 37322]%N ++ runes_of_ascii "
+        char[255] matchKey `{ , }`,
+        repeat string_ Pad,
+    },
+    repeat tag {
+        i32 options1,
+        falsey @calculatedFrom(""x y""),
+        float {
+            i64 body @lengthOf(metadata),
+            int64 falsey `say ""hi""`,
+        },/// triple
+    },
+    roots roots ``,
+}")).
+Eval vm_compute in ("<<<M11>>>" ++ check (runes_of_ascii "
+root	packet // a // b
+o {  As@lengthOf( chars
+)
+, // c
+} root packet A { // c
+match T	as// `tick` ""quote"" 'q'
+lengthOf {[
+0
+    ]: Packet , [42 ] : Packet 7
+    : options1
+,65535 : Z9_ ,  3
+    : msg_type// trailing space 
+, ""a	b"" : matchKey  } , repeat  int
+{ string float	@lengthOf(	msg_type  )`` ,string_ { BodyLength { repeat
+rootA`100% of %d`
+    //
+    , },
+    f32a // c
+@lengthOf(
+pack ) ,repeat char[] u,
+    i64_
+{ string x,
+T`
+` ,	i8 lengthOf
+    , u64 leftPad
+, } , } , i8 Packet
+@calculatedFrom( """ ++ [128512]%N ++ runes_of_ascii """ ) ,
+}	,@calculatedFrom( ""packet"" )f32 _x
+    , match
+Pad as x {
+    42:u	, [4294967296 ] :	zchar [ ""\n"" , ""{,}"" ] :roots,
+// `tick` ""quote"" 'q'
+//x
+007 // packet A { u8 x, }
+: // trailing space 
+A ,
+[ // 50% %s
+0 //
+]: charz ,
+[ ""a	b"" , 10 ]
+: i64_ ,
+}
+    ,char[]i64_ ,
+repeat metadata
+    ,}")).
+Eval vm_compute in ("<<<M710>>>" ++ check (runes_of_ascii "// " ++ [27880; 37322]%N ++ runes_of_ascii "
+MetaData a1
+{
+}
+packet
+u8x {	match a1 as	As{""" ++ [233]%N ++ runes_of_ascii "t" ++ [233]%N ++ runes_of_ascii """ : Foo ,} , // " ++ [27880; 37322]%N ++ runes_of_ascii "
+} packet /// triple
+trueish{@lengthOf(
+Foo ) uint32 trueish,
+repeat zchar[  1  ]
+    Foo
+`line1
+line2` , // a // b
+u16 options1 ,
+@calculatedFrom(
+    """ ++ [233]%N ++ runes_of_ascii "t" ++ [233]%N ++ runes_of_ascii """
+)/// triple
+u8  msg_type@calculatedFrom( ""{,}""
+)
+,  char[ 255 ]int`u8 x,`
+, } packet u { @tag( //
+3 ) chars Foo// 50% %s
+, @tag( 3 )
+i16 Pad	@calculatedFrom( """ ++ [128512]%N ++ runes_of_ascii """)
+    `// not a comment`
+, // " ++ [27880; 37322]%N ++ runes_of_ascii "
+zchar[  1
+]calculatedFrom ,
+repeat chars// " ++ [27880; 37322]%N ++ runes_of_ascii "
+{ float
+, string_ {  zchar[ 007 ]
+    trueish , char[42
+    ] rootA `u8 x,`,
+    repeat chars
+{ //	t
+o stringy
+`tab	here`
+    ,
+// @lengthOf(
+// " ++ [128512]%N ++ runes_of_ascii " emoji
+matchKey  int,}
+, uint8x , } ,
+} ,
+    } MetaData roots
+{ stringy len , int16 len, char[] // 50% %s
+MetaDataX`" ++ [233]%N ++ runes_of_ascii "` ,
+    f32a x`100% of %d`  , } /// triple")).
+Eval vm_compute in ("<<<M3536>>>" ++ check (runes_of_ascii "options {
+    StringPrefixLenType = u64;
+    ArrayPrefixLenType = u8;
+    FixedStringPadChar = '0';
+}
+packet Logout {
+    char[] f1,
+    repeat u64 Qty,
+    string Acct,
+    char[] Side2,
+    repeat i64 clOrdID,
+}
+packet Logon {
+    i64 tag7,
+    Logout,
+    @rightPad('\x00') char[4] Qty,
+    repeat char[4] venue,
+    string seqNo,
+}
+packet Party {
+    Logon,
+    float32 x,
+    uint32 price,
+    repeat string venue,
+    repeat char[3] seqNo,
+}
+packet Leg {
+    string Flags,
+    i32 Ref,
+    repeat Logout,
+    repeat u16 x,
+}
+packet Cancel {
+    repeat Logon,
+    int8 Ref,
+    Logout,
+    char[] OrderId,
+    int16 Tail,
+}
+root packet Heartbeat {
+    zchar[8] price,
+    repeat Logout,
+    Cancel,
+    char[] Qty,
+    int32 x,
+    Leg,
+}
+")).
+Eval vm_compute in ("<<<M1377>>>" ++ check (runes_of_ascii "options// c
+{ As=false }
+    packet falsey { @lengthOf(
+float) @calculatedFrom(	""\n"" ) u32 As , match leftPad as repeatCount
+{ 0 :
+    Z9_ ,  1 : repeatCount
+, [ 65535 ]// trailing space 
+:// c
+Pad 00
+:	packetx
+    ""a\\""
+    : packetx
+,
+00:crc ,} , repeat Packet
+, repeat
+    float {u128 /// triple
+@calculatedFrom( """ ++ [28040; 24687]%N ++ runes_of_ascii """
+    ) `a\`
+    , u64 Foo `a\`	, } ,  @leftPad ( '\x00')
+@tag(
+1	)
+@calculatedFrom( ""`tick`"")  f64
+    lengthOf , @rightPad
+( '0')
+@leftPad ( ) @lengthOf(
+f32a ) repeat i64_ x_y_z , @rightPad( '\x00' ) o
+@calculatedFrom("""") `doc`  , asx	{
+// a // b
+//x
+repeat
+    T chars `two words`
+,
+repeat char[0] string_ ,
+} ,  repeat char repeatCount
+`{ , }`, @rightPad ( )int16 float
+,}
+")).
+Eval vm_compute in ("<<<M4366>>>" ++ check (runes_of_ascii "// " ++ [27880; 37322]%N ++ runes_of_ascii "
+packet crc {
+    charz stringy `u8 x,`,// c
+    @lengthOf(metadata)
+    repeat matchKey {
+        Logon @calculatedFrom(""it's"") `crlf
+                line`,
+        i64 len,
+    },
+    zchar[255] calculatedFrom `tab	here`,
+    repeat Pad {
+        match options1 as Header {
+            ""\n"" : Logon,
+            255 : pack,
+            10 : crc,
+            [007, 4294967296, 255, ""\n""] : repeatCount,
+            00 : crc,
+            ""a\\"" : chars,
+        },
+        x {
+            _x _x,
+            zchar[0] tag @lengthOf(body) ``,
+        },
+        zchar[65535] msg_type,
+        repeat u16 A `doc`,
+    },
+    i8 x `a\`,
+    repeat x {
+        o,
+    },
+}")).
+Eval vm_compute in ("<<<M4318>>>" ++ check (runes_of_ascii "  root	packet u
+{repeat
+float ,}	MetaData	rootA 
+{u32 
+  //
+      //
+	  stringy  ,
+int64	matchKey `tab	here` , matchKey
+    o
+,
+
+    char[	0123456789
+    ]  a1  // 50% %s
+	`tab	here`
+,
+matchKey  leftPad ,
+    } packet int
+	{@rightPad
+
+( 
+' '
+)  zchar[
+
+    1
+
+] Z9_ , // `tick` ""quote"" 'q'
+	@leftPad (
+
+'0'
+) 
+body packetx
+,
+@calculatedFrom( ""x y"") zchar[
+
+    1 ] A
+,@rightPad
+('0'
+
+) 
+    // " ++ [128512]%N ++ runes_of_ascii " emoji
+    	repeat leftPad  charz
+`" ++ [28040; 24687; 31867; 22411]%N ++ runes_of_ascii "` ,	@lengthOf(	BodyLength	)@tag(
+
+    0
+
+) @calculatedFrom(
+	""it's"" 
+) string
+f32a
+    @lengthOf(
+	int
+)
+	,
+	u8x
+
+,
+Foo @calculatedFrom(""x y""
+
+    ) , 
+} packet	asx 
+{ 
+}
+
+    packet  u
+{
+}")).
+Eval vm_compute in ("<<<M1004>>>" ++ check (runes_of_ascii "MetaData falsey{
+    char[ 42 ]msg_type , i16 tag
+    // trailing space 
+    , f64  i8i8
+    // 50% %s
+    `two words` ,
+a1 msg_type
+    `crlf
+line`
+//	t
+// packet A { u8 x, }
+,char[ 3
+] string_`// not a comment`, }
+    options {
+x_y_z =
+4294967296;	} // " ++ [128512]%N ++ runes_of_ascii " emoji
+packet options1{ @calculatedFrom( ""a\""b"" )@tag( 00 ) @tag( 65535 )string_	packetx,
+As{ // c
+zchar[ 1 ]
+f32a @calculatedFrom(
+""" ++ [128512]%N ++ runes_of_ascii """ ) ,
+    Packet
+    // c
+    @lengthOf( a1 ) `{ , }` , repeat
+Foo { // " ++ [128512]%N ++ runes_of_ascii " emoji
+chars// trailing space 
+leftPad ,f64
+falsey
+    // trailing space 
+    @calculatedFrom( ""{,}"" )	, } //x
+, i64_ @lengthOf(
+packetx )	,} , //
+}
+
+")).
+Eval vm_compute in ("<<<M572>>>" ++ check (runes_of_ascii "
+packet falsey { }
+    options
+    /// triple
+    { x_y_z
+=
+""1"" ; o = ""{,}"";
+metadata= // " ++ [128512]%N ++ runes_of_ascii " emoji
+false } packet leftPad { @rightPad ( ) Pad{ pack
+_x,match i8i8 as uint8x { 3
+: o ,[65535 ,	""{,}""	, ""\" ++ [233]%N ++ runes_of_ascii """,
+0123456789 , ""{,}""
+, ""\" ++ [233]%N ++ runes_of_ascii """ , 255
+    , 7]:
+msg_type  ,  },
+repeat falsey
+    ,
+tag @calculatedFrom( ""// no comment""
+// 50% %s
+// `tick` ""quote"" 'q'
+),}
+,
+}options { A = uint64	;As  = ""it's""; a1
+=  255}MetaData trueish {
+    float64 string_
+// 50% %s
+// a // b
+, // c
+a1 Header
+`// not a comment`
+// a // b
+//	t
+,
+    /// triple
+    x
+    charz
+`tab	here` // c
+,
+    // " ++ [27880; 37322]%N ++ runes_of_ascii "
+    }")).
+Eval vm_compute in ("<<<M42>>>" ++ check (runes_of_ascii "packet metadata { @leftPad
+    (' '
+)// " ++ [128512]%N ++ runes_of_ascii " emoji
+match
+asx as Logon
+    {[""it's""
+, ""{,}"", 00 ]
+    :
+    f32a, ""\n""  :charz
+// trailing space 
+// " ++ [27880; 37322]%N ++ runes_of_ascii "
+4294967296:i8i8, }
+,
+@calculatedFrom( ""a\""b"" ) //	t
+@calculatedFrom( """ ++ [233]%N ++ runes_of_ascii "t" ++ [233]%N ++ runes_of_ascii """
+    ) @tag( 42 ) match
+    asx as
+    /// triple
+    falsey {
+    [
+""abc"" , ""a\""b"" ] :
+x  , // @lengthOf(
+42 : o ,},
+@lengthOf(Z9_ ) zchar[ 42 ]	int
+    `100% of %d` ,@lengthOf( msg_type
+    )  calculatedFrom  ``  , }
+MetaData roots { }
+    options { asx = false
+    ; leftPad  =
+    3 ;
+// `tick` ""quote"" 'q'
+// 50% %s
+}
+// a // b
+")).
+Eval vm_compute in ("<<<M3494>>>" ++ check (runes_of_ascii "// top
+packet
+    // c0
+A // c1
+{ // c2
+u8 // c3
+a // c4a
+  // c4b
+, // c5a
+  // c5b
+} // c6
+packet // c7a
+  // c7b
+B // c8
+{ // c9
+u16 // c10a
+  // c10b
+b // c11a
+  // c11b
+, // c12
+}
+    // c13
+root
+    // c14
+packet
+    // c15
+P // c16a
+  // c16b
+{ // c17
+u8 // c18a
+  // c18b
+K
+    // c19
+, match // c21a
+  // c21b
+K // c22
+as // c23
+M // c24
+{ // c25a
+  // c25b
+[ // c26a
+  // c26b
+1 , 2 ] // c30
+: // c31
+A // c32
+, // c33a
+  // c33b
+3 : B // c36
+, // c37a
+  // c37b
+7 :
+    // c39
+A , // c41a
+  // c41b
+} // c42
+,
+    // c43
+} // c44
+")).
+Eval vm_compute in ("<<<M567>>>" ++ check (runes_of_ascii "
+MetaData u128 {f32 stringy // @lengthOf(
+`tab	here`, string  float `// not a comment` ,u32 //	t
+BodyLength `it's`
+    // c
+    ,x /// triple
+As `{ , }` , string
+_x
+,
+// c
+//
+zchar[ 10 ]
+body ,}
+root // a // b
+packet  i64_{	@rightPad (' '// a // b
+) int32 repeatCount @lengthOf(
+matchKey ), @rightPad
+(
+'0' )
+//	t
+// @lengthOf(
+repeat
+u8
+x_y_z `{ , }` ,
+    @tag(4294967296 )  @rightPad
+    ('0' ) repeat Foo chars  , @tag( 10
+    ) zchar[
+1 ] repeatCount @lengthOf( crc )
+, }
+    MetaData trueish { char[ 007
+] pack,}
+
+")).
+Eval vm_compute in ("<<<M1104>>>" ++ check (runes_of_ascii "root packet chars
+{
+int16 As ,
+@calculatedFrom( """"  ) uint8x	Logon ,match trueish as
+As {
+[ 10,7
+    , 65535, 1 ,""a	b"" , """ ++ [128512]%N ++ runes_of_ascii """,""// no comment""
+] : string_ ,[ 10 ] : u8x
+    , [4294967296
+    , 00] : o
+, } ,
+@calculatedFrom( ""a\\""
+)	@lengthOf( calculatedFrom) @calculatedFrom(
+""`tick`"" ) char[] charz //	t
+`it's`
+, @calculatedFrom(
+""1""  )f32a
+    { repeat u64
+    options1 ,	x //x
+int
+    ,repeat x  ,  } , repeat char[	4294967296] // 50% %s
+body	`line1
+line2`
+, }  options{leftPad =  false ;	}")).
+Eval vm_compute in ("<<<M839>>>" ++ check (runes_of_ascii "root
+    packet A {
+char[
+0123456789 ]
+    // c
+    zchar	`say ""hi""`, match i64_  as
+body
+{ [ 0123456789 ]  : float 10 // a // b
+:
+    Foo , [ ""CRC32"" ]
+// trailing space 
+// packet A { u8 x, }
+:
+Foo
+""x y"" :metadata , [
+    10
+// " ++ [128512]%N ++ runes_of_ascii " emoji
+// c
+, 255
+    ,
+""abc"" ,
+0123456789,
+    0	,
+1
+, // `tick` ""quote"" 'q'
+7 // " ++ [128512]%N ++ runes_of_ascii " emoji
+]
+    :
+    f32a , },@calculatedFrom(  ""{,}"") @lengthOf( len
+)
+    //	t
+    match  x_y_z as uint8x
+{ ""\" ++ [233]%N ++ runes_of_ascii """ :
+// c
+// `tick` ""quote"" 'q'
+T ,} , }
+")).
+Eval vm_compute in ("<<<M3722>>>" ++ check (runes_of_ascii "
+
+  packet roots {
+char[
+	10]
+	a1 , @leftPad /// triple
+	('\x00'// " ++ [128512]%N ++ runes_of_ascii " emoji
+	)  @calculatedFrom(
+""" ++ [28040; 24687]%N ++ runes_of_ascii """)
+
+@calculatedFrom(
+
+    ""`tick`""  ) repeat chars 
+As 
+,
+
+@lengthOf( roots
+
+    ) 
+repeat
+string_  { char[
+7 ]
+As@calculatedFrom(
+""packet"" // trailing space 
+	) 
+	// `tick` ""quote"" 'q'
+
+// 50% %s
+	, i16 x_y_z @calculatedFrom(
+""" ++ [128512]%N ++ runes_of_ascii """ 
+)	, repeat  zchar
+    // @lengthOf(
+
+MetaDataX  // @lengthOf(
+`100% of %d`
+	,
+	    // " ++ [27880; 37322]%N ++ runes_of_ascii "
+
+//x
+
+}
+    , }
+")).
+Eval vm_compute in ("<<<M893>>>" ++ check (runes_of_ascii "packet Pad
+{
+/// triple
+//x
+@lengthOf( charz
+    ) match // a // b
+o
+// " ++ [128512]%N ++ runes_of_ascii " emoji
+//	t
+as stringy {	007 : asx ,
+    // @lengthOf(
+    }
+, @tag(
+65535
+) // trailing space 
+match Pad as packetx { [ 007
+] :
+rootA , } , @tag(65535 ) char[
+    0123456789	]	tag `" ++ [233]%N ++ runes_of_ascii "` ,  } MetaData As
+{
+char packetx `100% of %d`
+    , }	options
+{ // c
+Packet = // a // b
+'\x00'	i64_=3	;
+    falsey	= 00 ; x_y_z
+// c
+// @lengthOf(
+= 0
+    ;	Header =
+""a\""b"" }
+")).
+Eval vm_compute in ("<<<M3552>>>" ++ check (runes_of_ascii "options {
     LittleEndian = false;
     StringPrefixLenType = u16;
     ArrayPrefixLenType = u32;
+    FixedStringPadFromLeft = true;
+    FixedStringPadChar = '0';
 }
-
-packet Order {
-    uint8 x,
-    repeat string venue,
-}
-
-packet Heartbeat {
-    i64 count,
-    zchar[1] Qty,
-    repeat InX29 {
-        InSeqno26 {
-            int64 f1,
-            char[5] Acct,
-            Order,
-        },
-        repeat InSide285 {
-            repeat Order,
-            char[10] Px,
-            zchar[9] OrderId,
-        },
-        char[] venue,
-        Order,
+packet Quote {
+    repeat InSide284 {
+        repeat string Acct,
+        int64 OrderId,
     },
-    @rightPad('\x00')
-    char[4] clOrdID,
+    uint8 Px,
+    int32 lastPx,
+    uint8 Flags,
 }
-
-root packet Party {
-    zchar[3] f1,
-    u32 clOrdID,
-    u32 Px @lengthOf(Body),
-    match clOrdID as Body {
-        [180, 64] : Heartbeat,
-        11 : Order,
-    },
-    u32 Side2 @calculatedFrom(""CRC32""),
-}")).
-Eval vm_compute in ("<<<M1478>>>" ++ check (runes_of_ascii "// top
-options // c0
-{
-    // c1
-LittleEndian // c2a
-  // c2b
-=
-    // c3
-true // c4
-; // c5
-} // c6
-packet Logon // c8a
-  // c8b
-{ u8
-    // c10
-x
-    // c11
-, string
-    // c13
-user // c14a
-  // c14b
-, // c15a
-  // c15b
-} // c16a
-  // c16b
-packet // c17
-Logout // c18
-{ // c19
-u16 reason , // c22
-} // c23
-packet // c24a
-  // c24b
-Empty
-    // c25
-{ // c26
-} root
-    // c28
-packet // c29a
-  // c29b
-Frame
-    // c30
-{
-    // c31
-u16 // c32
-MsgType // c33
-, // c34
-@lengthOf( // c35
-Body
-    // c36
-) // c37
-u8
-    // c38
-BodyLen , // c40
-u8 // c41
-flags // c42
-, Logon // c44a
-  // c44b
-Body , u32 // c47a
-  // c47b
-trailer
-    // c48
-, // c49a
-  // c49b
-} // c50
+packet Fill {
+    f32 clOrdID,
+    uint32 msgKind,
+    repeat Quote,
+}
+root packet Trade {
+    string Acct,
+}
 ")).
-Eval vm_compute in ("<<<M1595>>>" ++ check (runes_of_ascii "//
-packet chars {
-    int16 int,
-    match calculatedFrom as zchar {
-        4294967296 : i8i8,
-        [""// no comment""] : stringy,
-        ""a\""b"" : u128,
-        007 : msg_type,
-        65535 : a1,
-        """" : u128,
-    },
-    Packet @lengthOf(f32a) `it's`,
-    int16 stringy `u8 x,`,
-    roots @lengthOf(trueish),
-    match charz as A {
-        10 : A,
-    },
-    string Header @calculatedFrom(""`tick`"") `doc`,
+Eval vm_compute in ("<<<M675>>>" ++ check (runes_of_ascii "packet int { match BodyLength  as Z9_ {[7,
+""\" ++ [233]%N ++ runes_of_ascii """ ]: metadata, 0 :
+    o, [
+//
+// 50% %s
+""\n"" ]: packetx	} , repeat // trailing space 
+char[ 255 ]
+Packet `line1
+line2`, @rightPad('\x00'	) uint16 i8i8 ,
+repeat
+    char[255	] zchar, //
+} /// triple
+root packet int {
+    // packet A { u8 x, }
+    @leftPad (
+' ' // `tick` ""quote"" 'q'
+)repeat int8 packetx , }	packet // `tick` ""quote"" 'q'
+Header{ }
+// a // b
+")).
+Eval vm_compute in ("<<<M316>>>" ++ check (runes_of_ascii "options { u8x ='0' ; float
+    = '\x00'; i8i8 =
+    u8; }options{ //
+x = ""a\\""
+;
+    body
+    = '\x00' ;
+}packet rootA { @lengthOf(trueish )
+@rightPad (
+    '0' )@lengthOf(
+//	t
+// " ++ [128512]%N ++ runes_of_ascii " emoji
+leftPad
+    ) repeat
+zchar[ 0123456789 ] body`100% of %d`	,
+}options {} MetaData i64_{ A leftPad
+, As calculatedFrom`say ""hi""` , f64 metadata/// triple
+,
+    x o `doc`, zchar[ 0123456789 ] u8x,  }")).
+Eval vm_compute in ("<<<M4125>>>" ++ check (runes_of_ascii "packet zchar {
+}
+
+packet Logon {
+    // a // b
+    // @lengthOf(
+    char[42] zchar,
+}// " ++ [27880; 37322]%N ++ runes_of_ascii "
+
+MetaData calculatedFrom {
+    char[10] x_y_z `it's`,
+    char[0] options1,
+    float32 Logon `" ++ [28040; 24687; 31867; 22411]%N ++ runes_of_ascii "`,
+    string stringy `line1
+    line2`,
+    zchar[42] BodyLength,
+    options1 f32a `it's`,
 }
 
 MetaData roots {
-    asx metadata,
-    int64 MetaDataX,
-    char[42] o `// not a comment`,
-    f32 packetx,
-    rootA As `it's`,
-    msg_type tag,
+    string i64_,
+}
+
+// @lengthOf(
+// packet A { u8 x, }
+MetaData A {
 }")).
-Eval vm_compute in ("<<<M167>>>" ++ check (runes_of_ascii "root
-packet i64_{
-    packetx
-// " ++ [128512]%N ++ runes_of_ascii " emoji
-// " ++ [27880; 37322]%N ++ runes_of_ascii "
-{	string zchar // c
+Eval vm_compute in ("<<<M4165>>>" ++ check (runes_of_ascii "packet len {
+    x_y_z body `100% of %d`,
+    @tag(1)
+    zchar[4294967296] u `two words`,
+    @tag(007)
+    match BodyLength as Z9_ {
+        [
+            007, 4294967296, ""packet"", ""\n"", 10,
+            ""CRC32""
+        ] : repeatCount,
+        42 : len,
+        [42, ""packet""] : MetaDataX,
+    },
+    @rightPad()
+    zchar[42] x_y_z @lengthOf(Pad) `doc`,
+}")).
+Eval vm_compute in ("<<<M812>>>" ++ check (runes_of_ascii "packet /// triple
+roots
+    { a1`{ , }`
+,// 50% %s
+@tag(	0123456789 )// " ++ [128512]%N ++ runes_of_ascii " emoji
+@calculatedFrom(""" ++ [128512]%N ++ runes_of_ascii """
+    // packet A { u8 x, }
+    )  match metadata as x {""it's"" :
+    //
+    i8i8 0123456789 :i64_ [ ""\n""
+    , ""1""
+] : pack 65535
+    : calculatedFrom ,007 : Header
+    ""it's""  : packetx } ,// " ++ [128512]%N ++ runes_of_ascii " emoji
+@rightPad
+('\x00' )
+    f64
+lengthOf `it's`	, }
+")).
+Eval vm_compute in ("<<<M4403>>>" ++ check (runes_of_ascii "// top
+
+MetaData 	 // c0
+  metadata	// c1
+{  // c2
+} // c3
+	MetaData// c4
+    	rootA	// c5
+	{	// c6
+  i8// c7
+  i64_	// c8
+	, // c9
+	roots// c10
+options1  // c11
+
+  `a\` // c12
+, 	 // c13
+	  lengthOf  // c14
+	Header  // c15
+  ,	// c16
+Z9_// c17
+		Foo // c18
+,// c19
+int16 	 // c20
+
+BodyLength// c21
+  ,// c22
+  	}	// c23")).
+Eval vm_compute in ("<<<M501>>>" ++ check (runes_of_ascii "
+MetaData lengthOf{i16 asx ,msg_type rootA
+    `it's`
+, } root packet packetx
+{ @tag(1 ) uint32 options1 @calculatedFrom(  """ ++ [28040; 24687]%N ++ runes_of_ascii """
+    ) , @tag(
+    10
+)lengthOf stringy `" ++ [28040; 24687; 31867; 22411]%N ++ runes_of_ascii "` ,
+u16 x_y_z `100% of %d`
+,
+    /// triple
+    char[] Foo, }options
+    { x = '0' lengthOf // packet A { u8 x, }
+= ' ' i64_
+//
+// c
+= uint8 }")).
+Eval vm_compute in ("<<<M3574>>>" ++ check (runes_of_ascii "options {
+    LittleEndian = true;
+}
+packet Logon {
+    u8 x,
+}
+packet Logout {
+    u16 reason,
+}
+root packet Frame {
+    u16 Kind,
+    u16 Kind2,
+    match Kind as Body {
+        1 : Logon,
+        [2, 3, 4] : Logout,
+        100 : Logon,
+    },
+    match Kind2 as Trailer {
+        0 : Logout,
+    },
+}
+")).
+Eval vm_compute in ("<<<M4098>>>" ++ check (runes_of_ascii "
+
+  packet
+	calculatedFrom
+
+    { @calculatedFrom(  ""a\\""
+
+    ) 
+zchar[  4294967296	]calculatedFrom@lengthOf(
+	pack)
+    `100% of %d`
+
+, body 
 @calculatedFrom(
-""`tick`""
-    )
+    ""// no comment""
+) , 
+@tag(  007
+
+)  //x
+		int8
+
+leftPad
+`it's`
+,
+
+    repeat	pack
+
+{ repeat
+	char[
+    3] body
+
+,	},	}
+")).
+Eval vm_compute in ("<<<M1853>>>" ++ check (runes_of_ascii "packet	packetx packetx { // trailing space 
+x_y_z
+{
+string
+charz ,
+string x// @lengthOf(
+`two words`
+    ,  u8x { // `tick` ""quote"" 'q'
+charz `100% of %d` // packet A { u8 x, }
+,}// " ++ [27880; 37322]%N ++ runes_of_ascii "
+,} , }
+    // a // b
+    packet metadata {  @leftPad ( '0') repeat i32 options1 ,u64 uint8x , }
+")).
+Eval vm_compute in ("<<<M1999>>>" ++ check (runes_of_ascii "packet	packetx { // trailing space 
+x_y_z
+{
+string
+charz ,
+string x// @lengthOf(
+`two words`
+    ,  u8x { // `tick` ""quote"" 'q'
+charz `100% of %d` // packet A { u8 x, }
+,}// " ++ [27880; 37322]%N ++ runes_of_ascii "
+,} , }
+    // a // b
+    packet metadata {  @leftPad ( '0') repeat float64 options1 ,u64 uint8x , }
+")).
+Eval vm_compute in ("<<<M2007>>>" ++ check (runes_of_ascii "packet	packetx { // trailing space 
+x_y_z
+{
+string
+charz ,
+string x// @lengthOf(
+`two words`
+    ,  u8x { // `tick` ""quote"" 'q'
+charz `100% of %d` // packet A { u8 x, }
+,}// " ++ [27880; 37322]%N ++ runes_of_ascii "
+,} , }
+    // a // b
+    packet metadata {  @leftPad ( '0') repeat i32 options1 , ,u64 uint8x , }
+")).
+Eval vm_compute in ("<<<M1918>>>" ++ check (runes_of_ascii "packet	packetx { // trailing space 
+x_y_z
+{
+string
+charz ,
+string x// @lengthOf(
+`two words`
+    ,  u8x { // `tick` ""quote"" 'q'
+`100% of %d` charz // packet A { u8 x, }
+,}// " ++ [27880; 37322]%N ++ runes_of_ascii "
+,} , }
+    // a // b
+    packet metadata {  @leftPad ( '0') repeat i32 options1 ,u64 uint8x , }
+")).
+Eval vm_compute in ("<<<M1901>>>" ++ check (runes_of_ascii "packet	packetx { // trailing space 
+x_y_z
+{
+string
+charz ,
+string x// @lengthOf(
+`two words`
+      u8x { // `tick` ""quote"" 'q'
+charz `100% of %d` // packet A { u8 x, }
+,}// " ++ [27880; 37322]%N ++ runes_of_ascii "
+,} , }
+    // a // b
+    packet metadata {  @leftPad ( '0') repeat i32 options1 ,u64 uint8x , }
+")).
+Eval vm_compute in ("<<<M2029>>>" ++ check (runes_of_ascii "packet	packetx { // trailing space 
+x_y_z
+{
+string
+charz ,
+string x// @lengthOf(
+`two words`
+    ,  u8x { // `tick` ""quote"" 'q'
+charz `100% of %d` // packet A { u8 x, }
+,}// " ++ [27880; 37322]%N ++ runes_of_ascii "
+,} , }
+    // a // b
+    packet metadata {  @leftPad ( '0') repeat i32 options1 ,u64 uint8x ,")).
+Eval vm_compute in ("<<<M1852>>>" ++ check (runes_of_ascii "packet	 { // trailing space 
+x_y_z
+{
+string
+charz ,
+string x// @lengthOf(
+`two words`
+    ,  u8x { // `tick` ""quote"" 'q'
+charz `100% of %d` // packet A { u8 x, }
+,}// " ++ [27880; 37322]%N ++ runes_of_ascii "
+,} , }
+    // a // b
+    packet metadata {  @leftPad ( '0') repeat i32 options1 ,u64 uint8x , }
+")).
+Eval vm_compute in ("<<<M2145>>>" ++ check (runes_of_ascii "packet// packet A { u8 x, }
+repeatCount	{// packet A { u8 x, }
+@leftPad ( '\x00'
+) repeat u8x MetaDataX `crlf
+line`,
+    repeat
+    char[] MetaDataX
+    ,
+u64	uint8x@calculatedFrom(""a\""b"" ""a\""b""
+// c
+// packet A { u8 x, }
+) `tab	here`
+,//
+}MetaData pack
+    {
+    }
+")).
+Eval vm_compute in ("<<<M2015>>>" ++ check (runes_of_ascii "packet	packetx { // trailing space 
+x_y_z
+{
+string
+charz ,
+string x// @lengthOf(
+`two words`
+    ,  u8x { // `tick` ""quote"" 'q'
+charz `100% of %d` // packet A { u8 x, }
+,}// " ++ [27880; 37322]%N ++ runes_of_ascii "
+,} , }
+    // a // b
+    packet metadata {  @leftPad ( '0') repeat i32 options1 ,")).
+Eval vm_compute in ("<<<M2201>>>" ++ check (runes_of_ascii "packet// packet A { u8 x, }
+repeatCount	{// packet A { u8 x, }
+@leftPad ( '\x00'
+) repeat u8x MetaDataX `crlf
+line`,
+    repeat
+    char[] MetaDataX
+    ,
+u64	uint8x@calculatedFrom(""a\""b""
+// c
+// packet A { u8 x, }
+) `tab	here`
+@,//
+}MetaData pack
+    {
+    }
+")).
+Eval vm_compute in ("<<<M2121>>>" ++ check (runes_of_ascii "packet// packet A { u8 x, }
+repeatCount	{// packet A { u8 x, }
+@leftPad ( '\x00'
+) repeat u8x MetaDataX `crlf
+line`,
+    repeat
+    char[] ,
+    MetaDataX
+u64	uint8x@calculatedFrom(""a\""b""
+// c
+// packet A { u8 x, }
+) `tab	here`
+,//
+}MetaData pack
+    {
+    }
+")).
+Eval vm_compute in ("<<<M2067>>>" ++ check (runes_of_ascii "packet// packet A { u8 x, }
+repeatCount	{// packet A { u8 x, }
+string ( '\x00'
+) repeat u8x MetaDataX `crlf
+line`,
+    repeat
+    char[] MetaDataX
+    ,
+u64	uint8x@calculatedFrom(""a\""b""
+// c
+// packet A { u8 x, }
+) `tab	here`
+,//
+}MetaData pack
+    {
+    }
+")).
+Eval vm_compute in ("<<<M2134>>>" ++ check (runes_of_ascii "packet// packet A { u8 x, }
+repeatCount	{// packet A { u8 x, }
+@leftPad ( '\x00'
+) repeat u8x MetaDataX `crlf
+line`,
+    repeat
+    char[] MetaDataX
+    ,
+u64	@calculatedFrom(""a\""b""
+// c
+// packet A { u8 x, }
+) `tab	here`
+,//
+}MetaData pack
+    {
+    }
+")).
+Eval vm_compute in ("<<<M1551>>>" ++ check (runes_of_ascii "packet calculatedFrom
+{ @calculatedFrom( ""a\\"" ) zchar[ 4294967296 ]
+calculatedFrom@lengthOf( pack )	`100% of %d` ,char[]body@calculatedFrom( ""// no comment"" )  ,
+@tag( 007) //x
+int8
+leftPad`it's` ""{,}"" repeat pack
+    { repeat char[ 3] body
+,},
+}")).
+Eval vm_compute in ("<<<M1599>>>" ++ check (runes_of_ascii "packet calculatedFrom
+{ @calculatedFrom( ""a\\"" ) zchar[ 4294967296 ]
+calculatedFrom@lengthOf( pack )	`100% of %d` ,char[]body@calculatedFrom( ""// no comment"" )  ,
+@tag( 007) //x
+int8
+leftPad`it's` , repeat pack
+    { repeat char[ 3] body
+,} },
+}")).
+Eval vm_compute in ("<<<M4340>>>" ++ check (runes_of_ascii "
+root
+packet trueish
+	{
+
+    }  packet
+pack
+    {
+
+char[]
+
+string_	,	}MetaData
+
+Logon	{
+    uint8 body  `u8 x,`
+, 	 // @lengthOf(
+char[
+    00] matchKey
+	`// not a comment`
+, 
+i8i8
+	Z9_	,  packetx  MetaDataX ,f64	crc
+    `" ++ [233]%N ++ runes_of_ascii "`, }
+	options { }
+")).
+Eval vm_compute in ("<<<M1555>>>" ++ check (runes_of_ascii "packet calculatedFrom
+{ @calculatedFrom( ""a\\"" ) zchar[ 4294967296 ]
+calculatedFrom@lengthOf( pack )	`100% of %d` ,char[]body@calculatedFrom( ""// no comment"" )  ,
+@tag( 007) //x
+int8
+leftPad`it's` , pack repeat
+    { repeat char[ 3] body
+,},
+}")).
+Eval vm_compute in ("<<<M3987>>>" ++ check (runes_of_ascii "root packet Z9_ {
+    @calculatedFrom(""a\\"")
+    zchar[1] a1 @lengthOf(Z9_),
+    @tag(0123456789)
+    @lengthOf(Header)
+    /// triple
+    @tag(4294967296)
+    uint8 u128,
+    i16 msg_type,// packet A { u8 x, }
+    tag matchKey,
+}
+
+packet u8x {
+}")).
+Eval vm_compute in ("<<<M1556>>>" ++ check (runes_of_ascii "packet calculatedFrom
+{ @calculatedFrom( ""a\\"" ) zchar[ 4294967296 ]
+calculatedFrom@lengthOf( pack )	`100% of %d` ,char[]body@calculatedFrom( ""// no comment"" )  ,
+@tag( 007) //x
+int8
+leftPad`it's` , [ pack
+    { repeat char[ 3] body
+,},
+}")).
+Eval vm_compute in ("<<<M3475>>>" ++ check (runes_of_ascii "// top
+root // c0a
+  // c0b
+packet // c1a
+  // c1b
+P // c2a
+  // c2b
+{
+    // c3
+u16 a // c5a
+  // c5b
+, // c6a
+  // c6b
+u32 Sum // c8a
+  // c8b
+@calculatedFrom( // c9a
+  // c9b
+""CRC32"" // c10
+)
+    // c11
+, // c12a
+  // c12b
+} // c13
+")).
+Eval vm_compute in ("<<<M1577>>>" ++ check (runes_of_ascii "packet calculatedFrom
+{ @calculatedFrom( ""a\\"" ) zchar[ 4294967296 ]
+calculatedFrom@lengthOf( pack )	`100% of %d` ,char[]body@calculatedFrom( ""// no comment"" )  ,
+@tag( 007) //x
+int8
+leftPad`it's` , repeat pack
+    { repeat")).
+Eval vm_compute in ("<<<M745>>>" ++ check (runes_of_ascii "packet u128 // packet A { u8 x, }
+{@lengthOf(
+    Header ) //	t
+i8i8
+@calculatedFrom( ""{,}""	) `a\`	, } root packet// 50% %s
+uint8x
+    //x
+    { @calculatedFrom(""a\""b"" )
+// " ++ [27880; 37322]%N ++ runes_of_ascii "
+// " ++ [128512]%N ++ runes_of_ascii " emoji
+zchar[ 7 ]BodyLength ,
+}
+")).
+Eval vm_compute in ("<<<M3889>>>" ++ check (runes_of_ascii "packet f32a {
+    repeat packetx `// not a comment`,
+    @lengthOf(Foo)
+    zchar,
+    @tag(007)
+    @calculatedFrom(""\" ++ [233]%N ++ runes_of_ascii """)
+    @tag(007)
+    x_y_z @calculatedFrom(""packet"") `
+        `,
+    char[3] pack,
+}")).
+Eval vm_compute in ("<<<M1372>>>" ++ check (runes_of_ascii "root packet trueish {
+leftPad
+    body , } root // c
+packet
+    lengthOf
+    {
+@rightPad(  '0' )repeat char crc `line1
+line2` , } options {  }
+root packet int{
+    } MetaData trueish
+    { } // c")).
+Eval vm_compute in ("<<<M3615>>>" ++ check (runes_of_ascii "packet x_y_z {
+    uint64 i64_,
+}
+
+// " ++ [27880; 37322]%N ++ runes_of_ascii "
+// " ++ [128512]%N ++ runes_of_ascii " emoji
+packet A {
+    @lengthOf(chars)
+    @rightPad('0')
+    a1 i8i8,
+}
+
+MetaData As {
+}
+
+packet body {
+    @lengthOf(Logon)
+    string f32a,
+}")).
+Eval vm_compute in ("<<<M933>>>" ++ check (runes_of_ascii "packet  o{ @lengthOf(Pad)@tag( 1 ) @lengthOf( stringy
+)  int32
+    rootA
+`it's` , @lengthOf(
+    int
+)// a // b
+@tag(65535)@lengthOf(Header
+)uint8 Header @calculatedFrom( """ ++ [233]%N ++ runes_of_ascii "t" ++ [233]%N ++ runes_of_ascii """ )	, }")).
+Eval vm_compute in ("<<<M511>>>" ++ check (runes_of_ascii "
+MetaData rootA { lengthOf falsey
+`crlf
+line` ,
+u32 u8x `say ""hi""` // " ++ [128512]%N ++ runes_of_ascii " emoji
+, int16
+    As `two words`,zchar[3
+// c
+// a // b
+] x
+    //x
     `
 `
-, zchar[1 ]  metadata	`doc`	, Foo
-    @calculatedFrom(
-""CRC32""
-    )
-    ,}
-    //	t
-    ,char[]roots `crlf
-line`
-//	t
-//x
-, @calculatedFrom(""it's"" )  char
-    rootA
-    ,
-@tag( 7 )
-    charz o //x
-`it's`
-, // a // b
-char[ 007] msg_type@lengthOf(x_y_z )
+/// triple
+// c
 ,
-    repeat //	t
-zchar[ 007 ]repeatCount `say ""hi""` , match i64_ as rootA
-{ [""abc"" ] :T }
-, repeat chars ,  }
-")).
-Eval vm_compute in ("<<<M1348>>>" ++ check (runes_of_ascii "// top
-packet
-    // c0
-B // c1
-{
-    // c2
-u8 a // c4a
-  // c4b
-,
-    // c5
-} // c6a
-  // c6b
-root packet // c8
-P // c9
-{
-    // c10
-u8 K
-    // c12
-, // c13
-u8 // c14a
-  // c14b
-L // c15a
-  // c15b
-@lengthOf( // c16a
-  // c16b
-Body
-    // c17
-)
-    // c18
-, // c19
-match // c20a
-  // c20b
-K // c21a
-  // c21b
-as
-    // c22
-Body // c23a
-  // c23b
-{ // c24a
-  // c24b
-1 : // c26
-B , }
-    // c29
-, // c30
-} // c31a
-  // c31b
-")).
-Eval vm_compute in ("<<<M22>>>" ++ check (runes_of_ascii "packet  Pad{
-@leftPad ( '0' ) @calculatedFrom( ""`tick`""
-    )// @lengthOf(
-match
-    i64_ as x
-    {
-    /// triple
-    00: zchar
-    , } , i8i8 o // " ++ [27880; 37322]%N ++ runes_of_ascii "
-,char[] _x
-, repeat zchar[007 ] trueish
-    ,zchar @lengthOf( trueish)`{ , }`
-,// c
-@calculatedFrom(""a\""b"") @tag( 1 ) trueish zchar ,
-char[
-    3 ] rootA @calculatedFrom(
-    ""a\""b"" )
-`tab	here`
-//	t
-// trailing space 
-,
-}")).
-Eval vm_compute in ("<<<M58>>>" ++ check (runes_of_ascii "
-MetaData// `tick` ""quote"" 'q'
-asx
-{
-    // packet A { u8 x, }
-    char
-// @lengthOf(
-//x
-Z9_ , } options{ Pad
-= '0' /// triple
-} options { trueish = ""it's"" matchKey =
-    false
-    ; T = float32 ;
-    /// triple
-    len= ' ' ; string_
-=
-    i16 ; } root// `tick` ""quote"" 'q'
-packet f32a{char[]
-    // trailing space 
-    u8x
-    , }")).
-Eval vm_compute in ("<<<M1655>>>" ++ check (runes_of_ascii "packet body {
-    @rightPad('0')
-    Packet a1,
-    asx,
-    repeatCount {
-        // trailing space 
-        repeat int64 falsey,
-    },
-    @rightPad('0')
-    match int as T {
-        4294967296 : _x,
-        00 : string_,
-        [""x y""] : stringy,
-    },// packet A { u8 x, }
-    uint32 x_y_z,
-}")).
-Eval vm_compute in ("<<<M1411>>>" ++ check (runes_of_ascii "  packet 
-P1{
-
-    u8
-
-a 
-,}	packet
-P2 {
-    P1	,} packet
-P3 {
-P2
-,
-P1	,}  packet
-    P4
-
-    {
-repeat P3
-,	P2 ,}
-root	packet P5
-
-{ 
-P4,
-
-    P3
-
-,P1 ,	u8  K
-
-    ,
-    match  K	as  Body	{
-
-4 :	P4
-
-,	3
-:P3
-
-    , 
-2 : P2
-
-,
-    1
-:
-
-P1 ,
-
-    } ,} ")).
-Eval vm_compute in ("<<<M82>>>" ++ check (runes_of_ascii "packet
-x { char matchKey
-    @lengthOf( x_y_z ) //
-, }packet	trueish  {
-    @tag( 255
-    )
-char calculatedFrom @lengthOf( Header ) , }
-    MetaData options1
-    // trailing space 
-    { }
-packet MetaDataX {
     }
-    packet trueish{	}")).
-Eval vm_compute in ("<<<M472>>>" ++ check (runes_of_ascii "options
-{
-matchKey = 42/// triple
-x='0' ;
-// packet A { u8 x, }
-//
-charz
-=
-// packet A { u8 x, }
-// trailing space 
-true  ; } MetaData BodyLength
-{
-uint8 uint8
-pack,zchar[ 1]float ,  float32 x_y_z `` ,u32
-_x,i16 body  , }
 ")).
-Eval vm_compute in ("<<<M394>>>" ++ check (runes_of_ascii "options
-u64
-matchKey = 42/// triple
-x='0' ;
-// packet A { u8 x, }
-//
-charz
-=
-// packet A { u8 x, }
-// trailing space 
-true  ; } MetaData BodyLength
+Eval vm_compute in ("<<<M92>>>" ++ check (runes_of_ascii "packet x_y_z
+{zchar[ 10] body , repeat	char[]
+asx, u64 x_y_z `// not a comment` ,@tag(  00 ) @lengthOf(
+a1)@tag(
+3	) BodyLength
+    // " ++ [27880; 37322]%N ++ runes_of_ascii "
+    asx	`tab	here` , } // " ++ [27880; 37322]%N)).
+Eval vm_compute in ("<<<M1820>>>" ++ check (runes_of_ascii "options { } packet Packet{char[] i64_ ,
+@tag(
+    255) match
+crc as i8i8{""{,}"" : trueish """" : Pad , ""a\\"" :
+Foo ,
+    1 :packetx
+, """ ++ [128512]%N ++ runes_of_ascii """ : trueish , } @lengthOf( }")).
+Eval vm_compute in ("<<<M1678>>>" ++ check (runes_of_ascii "options { } packet Packet{char[] i64_ ,
+@tag( @tag(
+    255) match
+crc as i8i8{""{,}"" : trueish """" : Pad , ""a\\"" :
+Foo ,
+    1 :packetx
+, """ ++ [128512]%N ++ runes_of_ascii """ : trueish , } , }")).
+Eval vm_compute in ("<<<M2418>>>" ++ check (runes_of_ascii "
+packet MetaDataX
 {
-uint8
-pack,zchar[ 1]float ,  float32 x_y_z `` ,u32
-_x,i16 body  , }
+    @leftPad
+( // a // b
+'0'
+) i8 u u @lengthOf(
+MetaDataX
+    ) `say ""hi""` ,	} MetaData BodyLength {
+    asx
+x_y_z `" ++ [233]%N ++ runes_of_ascii "`
+, uint64 u128 , }
 ")).
-Eval vm_compute in ("<<<M504>>>" ++ check (runes_of_ascii "options
+Eval vm_compute in ("<<<M1795>>>" ++ check (runes_of_ascii "options { } packet Packet{char[] i64_ ,
+@tag(
+    255) match
+crc as i8i8{""{,}"" : trueish """" : Pad , ""a\\"" :
+Foo ,
+    1 :packetx
+, packet : trueish , } , }")).
+Eval vm_compute in ("<<<M1738>>>" ++ check (runes_of_ascii "options { } packet Packet{char[] i64_ ,
+@tag(
+    255) match
+crc as i8i8{""{,}"" : trueish """" : : Pad , ""a\\"" :
+Foo ,
+    1 :packetx
+, """ ++ [128512]%N ++ runes_of_ascii """ : trueish , } , }")).
+Eval vm_compute in ("<<<M619>>>" ++ check (runes_of_ascii "options { }packet asx {@lengthOf( Foo )roots Packet, x  {repeat
+    char[] u /// triple
+, } ,//	t
+@lengthOf( crc ) repeat
+    // c
+    u128 `{ , }`	,} // c")).
+Eval vm_compute in ("<<<M1679>>>" ++ check (runes_of_ascii "options { } packet Packet{char[] i64_ ,
+255
+    @tag() match
+crc as i8i8{""{,}"" : trueish """" : Pad , ""a\\"" :
+Foo ,
+    1 :packetx
+, """ ++ [128512]%N ++ runes_of_ascii """ : trueish , } , }")).
+Eval vm_compute in ("<<<M2378>>>" ++ check (runes_of_ascii "
+packet MetaDataX
 {
-matchKey = 42/// triple
-x='0' ;
-// packet A { u8 x, }
-//
-charz
-=
-// packet A { u8 x, }
-// trailing space 
-true  ; } MetaData BodyLength
-{
-uint8
-pack,zchar[ 1]string ,  float32 x_y_z `` ,u32
-_x,i16 body  , }
+    @leftPad
+( // a // b
+'0'
+) i8 u @lengthOf(
+MetaDataX
+    ) `say ""hi""` ,	} MetaData BodyLength {
+    
+x_y_z `" ++ [233]%N ++ runes_of_ascii "`
+, uint64 u128 , }
 ")).
-Eval vm_compute in ("<<<M479>>>" ++ check (runes_of_ascii "options
+Eval vm_compute in ("<<<M2413>>>" ++ check (runes_of_ascii "
+packet MetaDataX
 {
-matchKey = 42/// triple
-x='0' ;
-// packet A { u8 x, }
-//
-charz
-=
-// packet A { u8 x, }
-// trailing space 
-true  ; } MetaData BodyLength
-{
-uint8
-true,zchar[ 1]float ,  float32 x_y_z `` ,u32
-_x,i16 body  , }
+    @leftPad
+( // a // b
+'0'
+) i8 u @lengthOf(
+MetaDataX
+    ) `say ""hi""` ,	} MetaData BodyLength {
+    asx
+x_y_z `" ++ [233]%N ++ runes_of_ascii "`
+, uint64  , }
 ")).
-Eval vm_compute in ("<<<M390>>>" ++ check (runes_of_ascii "int16
-{
-matchKey = 42/// triple
-x='0' ;
-// packet A { u8 x, }
-//
-charz
-=
-// packet A { u8 x, }
-// trailing space 
-true  ; } MetaData BodyLength
-{
-uint8
-pack,zchar[ 1]float ,  float32 x_y_z `` ,u32
-_x,i16 body  , }
-")).
-Eval vm_compute in ("<<<M387>>>" ++ check (runes_of_ascii "
-{
-matchKey = 42/// triple
-x='0' ;
-// packet A { u8 x, }
-//
-charz
-=
-// packet A { u8 x, }
-// trailing space 
-true  ; } MetaData BodyLength
-{
-uint8
-pack,zchar[ 1]float ,  float32 x_y_z `` ,u32
-_x,i16 body  , }
-")).
-Eval vm_compute in ("<<<M336>>>" ++ check (runes_of_ascii "packet
-    a1//	t
-{ @tag( 10 )	match x
-    as float { 007
-: falsey
-    , }	,}
+Eval vm_compute in ("<<<M1742>>>" ++ check (runes_of_ascii "options { } packet Packet{char[] i64_ ,
+@tag(
+    255) match
+crc as i8i8{""{,}"" : trueish """" :  , ""a\\"" :
+Foo ,
+    1 :packetx
+, """ ++ [128512]%N ++ runes_of_ascii """ : trueish , } , }")).
+Eval vm_compute in ("<<<M666>>>" ++ check (runes_of_ascii "
 options
-    { uint8x  = false ; } MetaData
-    rootA
-    {
+{ rootA =
+false asx
+=  false //x
+;BodyLength
+='0' }	MetaData
+zchar{	i64_ /// triple
+_x `" ++ [233]%N ++ runes_of_ascii "`,uint64 T`{ , }`
+    ,// packet A { u8 x, }
+} 	 ")).
+Eval vm_compute in ("<<<M1615>>>" ++ check (runes_of_ascii "packet calculatedFrom
+{ @calculatedFrom( ""a\\"" ) zchar[ 4294967296 ]
+calculatedFrom@lengthOf( pack )	`100% of %d` ,char[]body@calculatedFrom( ""/")).
+Eval vm_compute in ("<<<M459>>>" ++ check (runes_of_ascii "// " ++ [27880; 37322]%N ++ runes_of_ascii "
+root packet Packet { @tag(00
+// 50% %s
+// `tick` ""quote"" 'q'
+)	@calculatedFrom(
+    ""it's"" )float64 f32a@lengthOf( zchar )`it's` , }
+")).
+Eval vm_compute in ("<<<M216>>>" ++ check (runes_of_ascii "options
+    { len = true string_ = ""a\\"" repeatCount= //	t
+""{,}"" ; uint8x
 //	t
-// packet A { u8 x, }
-u32 i64_	,zchar[ 42] zchar, }
-")).
-Eval vm_compute in ("<<<M662>>>" ++ check (runes_of_ascii "// c
-packet i64_ {	char[] calculatedFrom , } packet
-trueish  {@calculatedFrom(
-""a\\"" ) o { i32 falsey@lengthOf( uint8x ),
-} , } // `tick` ""quote"" 'q'
-options {// c
-Z9_ Z9_ = ' '//
+//
+=char[ 3 // " ++ [27880; 37322]%N ++ runes_of_ascii "
+] } options {
+// 50% %s
+// a // b
 }
 ")).
-Eval vm_compute in ("<<<M717>>>" ++ check (runes_of_ascii "// c
-i64_ packet {	char[] calculatedFrom , } packet
-trueish  {@calculatedFrom(
-""a\\"" ) o { i32 falsey@lengthOf( uint8x ),
-} , } // `tick` ""quote"" 'q'
-options {// c
-Z9_ = ' '//
-}
-")).
-Eval vm_compute in ("<<<M681>>>" ++ check (runes_of_ascii "// c
-packet i64_ {	char[] calculatedFrom , } packet
-  {@calculatedFrom(
-""a\\"" ) o { i32 falsey@lengthOf( uint8x ),
-} , } // `tick` ""quote"" 'q'
-options {// c
-Z9_ = ' '//
-}
-")).
-Eval vm_compute in ("<<<M1870>>>" ++ check (runes_of_ascii "packet A {
-    match k as n {
-        [
-            1, ""bb"", 007, ""d"", 5,
-            ""f"", 7, ""h"", 9, ""j"",
-            11
-        ] : B,
-        2 : C,
-    },
-}")).
-Eval vm_compute in ("<<<M1746>>>" ++ check (runes_of_ascii "  // top
-    	root  
-  // c0
-    	packet
-	P
-    {  
-  // c3
-    char 	 // c4
-
-  c  // c5
-, 
-        // c6
-u8	// c7
-    x 	 // c8
-  ,	// c9
-}// c10")).
-Eval vm_compute in ("<<<M1333>>>" ++ check (runes_of_ascii "// top
-root // c0
-packet P
+Eval vm_compute in ("<<<M1796>>>" ++ check (runes_of_ascii "options { } packet Packet{char[] i64_ ,
+@tag(
+    255) match
+crc as i8i8{""{,}"" : trueish """" : Pad , ""a\\"" :
+Foo ,
+    1 :packetx
+,")).
+Eval vm_compute in ("<<<M4325>>>" ++ check (runes_of_ascii "// top
+MetaData _x {
     // c2
-{ // c3
-repeat
-    // c4
-char cs
-    // c6
-, u8 x // c9a
-  // c9b
-, // c10a
-  // c10b
+    f64 charz `tab	here`,// c6
+}// c7
+
+options {
+    // c9
+    BodyLength = """ ++ [233]%N ++ runes_of_ascii "t" ++ [233]%N ++ runes_of_ascii """;// c13
+}// c14")).
+Eval vm_compute in ("<<<M3277>>>" ++ check (runes_of_ascii "MetaData metadata { } MetaData rootA { i8
+// c
+i64_ , roots options1 `a\` , lengthOf Header , Z9_ Foo , int16 BodyLength , }")).
+Eval vm_compute in ("<<<M3833>>>" ++ check (runes_of_ascii "MetaData float {
+    uint8 BodyLength,
+    // c
 }
-    // c11
+
+MetaData charz {
+    float32 trueish `a\`,
+    i16 metadata `say ""hi""`,
+}")).
+Eval vm_compute in ("<<<M549>>>" ++ check (runes_of_ascii "MetaData
+    chars {	int A , } packet i64_ { match
+Foo
+/// triple
+// c
+as falsey
+{ [ 10
+//
+// " ++ [27880; 37322]%N ++ runes_of_ascii "
+, 3] : Header
+,} ,}
 ")).
-Eval vm_compute in ("<<<M1759>>>" ++ check (runes_of_ascii "packet A {
+Eval vm_compute in ("<<<M3068>>>" ++ check (runes_of_ascii "packet A {
+    u16 len @lengthOf(body) `tab
+	x`,
+    u32 crc @calculatedFrom(""CRC32"") `tab
+	x`,
+    string body,
+}")).
+Eval vm_compute in ("<<<M3050>>>" ++ check (runes_of_ascii "packet A {
+    u16 len @lengthOf(body) `a
 
-match k as	n	{[""a"",  22
-	,
+b`,
+    u32 crc @calculatedFrom(""CRC32"") `a
 
-    ""c c"" , 4 ,
-""e""	, 
-66
-    , ""g"",	8
-,
-	""i""
-
-    ,
-
-10
-, ""k""
-]  : B 
-,2: C} ,}
+b`,
+    string body,
+}")).
+Eval vm_compute in ("<<<M3348>>>" ++ check (runes_of_ascii "MetaData float { uint8 BodyLength , } MetaData charz { float32 trueish `a\` , i16 metadata // c
+`say ""hi""` , }")).
+Eval vm_compute in ("<<<M2432>>>" ++ check (runes_of_ascii "
+packet MetaDataX
+{
+    @leftPad
+( // a // b
+'0'
+) i8 u @lengthOf(
+MetaDataX
+    ) `say ""hi""` ,	} MetaData")).
+Eval vm_compute in ("<<<M3005>>>" ++ check (runes_of_ascii "packet A {
+  match k as n {
+    [""a"", 22, ""c c"", 4, ""e"", 66, ""g"", 8, ""i"", 10, ""k""] : B
+    2 : C
+  },
+}")).
+Eval vm_compute in ("<<<M2996>>>" ++ check (runes_of_ascii "packet A {
+  match k as n {
+    [""a"", ""bb"", 007, ""d"", ""e"", 66, ""g"", ""h"", 9, ""j""] : B
+    2 : C
+  },
+}")).
+Eval vm_compute in ("<<<M1023>>>" ++ check (runes_of_ascii "MetaData Z9_
+    // 50% %s
+    {x
+    u8x , lengthOf chars ,uint32 options1 , }
+    options{ } 	 ")).
+Eval vm_compute in ("<<<M2225>>>" ++ check (runes_of_ascii "MetaData _x {string string x `// not a comment` , string
+i64_ // trailing space 
+`a\` ,
+    }
 ")).
-Eval vm_compute in ("<<<M1350>>>" ++ check (runes_of_ascii "packet B {
+Eval vm_compute in ("<<<M2878>>>" ++ check (runes_of_ascii "int64 ; matchKey int8 MetaData f32 int32 uint8 MetaData MetaData char[] i64 uint32 @lengthOf(")).
+Eval vm_compute in ("<<<M2217>>>" ++ check (runes_of_ascii "MetaData char {string x `// not a comment` , string
+i64_ // trailing space 
+`a\` ,
+    }
+")).
+Eval vm_compute in ("<<<M2285>>>" ++ check (runes_of_ascii "MetaData _x {string x `// not a comment` , string
+i64_ // trailing space 
+`a\`~ ,
+    }
+")).
+Eval vm_compute in ("<<<M3732>>>" ++ check (runes_of_ascii "packet x {
+    @rightPad('0')
+    int32 T @calculatedFrom(""a\\""),// packet A { u8 x, }
+}")).
+Eval vm_compute in ("<<<M787>>>" ++ check (runes_of_ascii "
+packet
+x_y_z/// triple
+{ @leftPad
+    ( '0' )repeat Logon`
+` , // trailing space 
+}")).
+Eval vm_compute in ("<<<M990>>>" ++ check (runes_of_ascii "packet Foo { @tag( 4294967296
+) i8i8
+    @calculatedFrom(
+""\" ++ [233]%N ++ runes_of_ascii """ )`line1
+line2` , }
+")).
+Eval vm_compute in ("<<<M2960>>>" ++ check (runes_of_ascii "packet A {
+  match k as n {
+    [1, 22, 007, 4, 5, 66, 7, 8] : B
+    2 : C
+  },
+}")).
+Eval vm_compute in ("<<<M2263>>>" ++ check (runes_of_ascii "MetaData _x {string x `// not a comment` , string
+i64_ // trailing space 
+`a\`")).
+Eval vm_compute in ("<<<M3393>>>" ++ check (runes_of_ascii "MetaData _x { f64 charz `tab	here` , } options { BodyLength = """ ++ [233]%N ++ runes_of_ascii "t" ++ [233]%N ++ runes_of_ascii """ ; }
+// c
+")).
+Eval vm_compute in ("<<<M3381>>>" ++ check (runes_of_ascii "MetaData _x { f64 charz `tab	here` , } options
+// c
+{ BodyLength = """ ++ [233]%N ++ runes_of_ascii "t" ++ [233]%N ++ runes_of_ascii """ ; }")).
+Eval vm_compute in ("<<<M3443>>>" ++ check (runes_of_ascii "packet Inner {
     u8 a,
 }
 root packet P {
-    u8 K,
-    u64 L @lengthOf(Body),
-    match K as Body {
-        1 : B,
-    },
+    Inner ref_obj,
+    u8 x,
 }
 ")).
-Eval vm_compute in ("<<<M650>>>" ++ check (runes_of_ascii "MetaData
-    // trailing space 
-    matchKey
-{ u64 chars // a // b
-,char[] lengthOf `// not a comment`
-    , //	t
-~ }")).
-Eval vm_compute in ("<<<M613>>>" ++ check (runes_of_ascii "MetaData
-    // trailing space 
-    matchKey
-{ u64 chars // a // b
-char[], lengthOf `// not a comment`
-    , //	t
+Eval vm_compute in ("<<<M2921>>>" ++ check (runes_of_ascii "packet A {
+  match k as n {
+    [1, 22, 007, 4, 5] : B
+    2 : C
+  },
 }")).
-Eval vm_compute in ("<<<M1775>>>" ++ check (runes_of_ascii "  packet
-	A
+Eval vm_compute in ("<<<M2814>>>" ++ check (runes_of_ascii "@calculatedFrom( MetaData root char falsey , char[ lengthOf } uint16")).
+Eval vm_compute in ("<<<M3961>>>" ++ check (runes_of_ascii "
+root	packet P{ u8  s_u8
+, repeat
+
+    u8
+	r_u8, u16  b_len , }
+
+")).
+Eval vm_compute in ("<<<M3049>>>" ++ check (runes_of_ascii "packet A {
+    B b `a
+
+b`,
+    B `a
+
+b`,
+    repeat B bs `a
+
+b`,
+}")).
+Eval vm_compute in ("<<<M1116>>>" ++ check (runes_of_ascii "packet u128 { @calculatedFrom( ""\n"" // c
+) repeatCount ,
+    }
+")).
+Eval vm_compute in ("<<<M408>>>" ++ check (runes_of_ascii "packet
+int
 {
-
-match k 
-as  n
-
-    { [1
-,
-    ""bb""	,	007	,
-""d""
-	,
-
-    5
-,
-""f"",
-
-7] :
-B
-    2
-:	C
+zchar[
+    00 ]T
+    @lengthOf(
+trueish ) ,}
+")).
+Eval vm_compute in ("<<<M2883>>>" ++ check (runes_of_ascii "packet A {
+  match k as n {
+    [""a""] : B
+    2 : C
+  },
+}")).
+Eval vm_compute in ("<<<M1096>>>" ++ check (runes_of_ascii "  packet As
+    { repeat char
+    metadata	`" ++ [28040; 24687; 31867; 22411]%N ++ runes_of_ascii "` , }
+")).
+Eval vm_compute in ("<<<M2846>>>" ++ check (runes_of_ascii "( @calculatedFrom( uint64 ] @lengthOf( @lengthOf( ' '")).
+Eval vm_compute in ("<<<M4454>>>" ++ check (runes_of_ascii "
+MetaData	zchar
+    {  zchar[
+3]  Pad , // c
 	}
-	,
 
+")).
+Eval vm_compute in ("<<<M2345>>>" ++ check (runes_of_ascii "
+MetaData Pa""d{
+u32 rootA `line1
+line2` ,
+    }
+")).
+Eval vm_compute in ("<<<M1442>>>" ++ check (runes_of_ascii "packet calculatedFrom
+{ @calculatedFrom( ""a\\""")).
+Eval vm_compute in ("<<<M2630>>>" ++ check (runes_of_ascii "packet A { match k as n { [1,""a"",2] : B, }, }")).
+Eval vm_compute in ("<<<M2767>>>" ++ check (runes_of_ascii ": char[] i64 `it's` @lengthOf( uint16 match")).
+Eval vm_compute in ("<<<M3232>>>" ++ check (runes_of_ascii "
+// c
+MetaData zchar { zchar[ 3 ] Pad , }")).
+Eval vm_compute in ("<<<M3434>>>" ++ check (runes_of_ascii "root packet P {
+    char c,
+    u8 x,
 }
 ")).
-Eval vm_compute in ("<<<M914>>>" ++ check (runes_of_ascii "packet A {
-  match k as n {
-    [""a"", ""bb"", 007, ""d"", ""e"", 66, ""g"", ""h"", 9, ""j"", ""k"", 12] : B
-    2 : C
-  },
-}")).
-Eval vm_compute in ("<<<M948>>>" ++ check (runes_of_ascii "packet A {
-    u16 len @lengthOf(body) `x
-`,
-    u32 crc @calculatedFrom(""CRC32"") `x
-`,
-    string body,
-}")).
-Eval vm_compute in ("<<<M1261>>>" ++ check (runes_of_ascii "packet calculatedFrom { @tag( 4294967296 // c
-) u msg_type , char[ 3 ] crc @lengthOf( len ) `u8 x,` , }")).
-Eval vm_compute in ("<<<M1946>>>" ++ check (runes_of_ascii "
-
-  packet
-o
-
-{@tag(
-42
-    )
-    repeat 
-// c
-    x
-	{ char[
-0123456789 ] i64_
-,
-    },
-}
-options{
-	}")).
-Eval vm_compute in ("<<<M853>>>" ++ check (runes_of_ascii "packet A {
-  match k as n {
-    [""a"", ""bb"", ""c c"", ""d"", ""e"", ""f"", ""g"", ""h""] : B,
-    2 : C
-  },
-}")).
-Eval vm_compute in ("<<<M1139>>>" ++ check (runes_of_ascii "packet Logon { @tag( 42
-// c
-) @rightPad ( ' ' ) @leftPad ( ) repeat trueish { string T , } , }")).
-Eval vm_compute in ("<<<M1171>>>" ++ check (runes_of_ascii "packet Logon { @tag( 42 ) @rightPad ( ' ' ) @leftPad ( ) repeat trueish { string T , } ,
-// c
-}")).
-Eval vm_compute in ("<<<M384>>>" ++ check (runes_of_ascii "root packet SimpleMessage {
-    uint16 MsgType `" ++ [28040; 24687; 31867; 22411]%N ++ runes_of_ascii "`,
-    string JsonBody `Json" ++ [23383; 31526; 20018; 28040; 24687; 20307]%N ++ runes_of_ascii "`,
-}")).
-Eval vm_compute in ("<<<M1085>>>" ++ check (runes_of_ascii "packet A { match k as n // a
- { // b
- 1 // c
- : // d
- B // e
- , // f
- } // g
- , // h
- }")).
-Eval vm_compute in ("<<<M1729>>>" ++ check (runes_of_ascii "MetaData
-_x
-    {
-zchar[	4294967296	]
-    lengthOf `// not a comment` 
-// c
-
-,
-}")).
-Eval vm_compute in ("<<<M1222>>>" ++ check (runes_of_ascii "packet o { @tag( 42 ) repeat x // c
-{ char[ 0123456789 ] i64_ , } , } options { }")).
-Eval vm_compute in ("<<<M231>>>" ++ check (runes_of_ascii "MetaData Z9_
-    { a1
-//
-/// triple
-Z9_
-    , zchar[ 10	] x
-    , } options { }
+Eval vm_compute in ("<<<M842>>>" ++ check (runes_of_ascii "packet repeatCount
+    { }
+// 50% %s
 ")).
-Eval vm_compute in ("<<<M1601>>>" ++ check (runes_of_ascii "
-
-  packet A
+Eval vm_compute in ("<<<M4041>>>" ++ check (runes_of_ascii "MetaData zchar {
+    zchar[3] Pad,
+}")).
+Eval vm_compute in ("<<<M2633>>>" ++ check (runes_of_ascii "packet A { match k as { 1 : B }, }")).
+Eval vm_compute in ("<<<M3970>>>" ++ check (runes_of_ascii "root packet u {
+    float32 a1,
+}")).
+Eval vm_compute in ("<<<M278>>>" ++ check (runes_of_ascii "options {float =
+""packet"" ; }
+")).
+Eval vm_compute in ("<<<M2827>>>" ++ check (runes_of_ascii "packet false int64 root '0' ;")).
+Eval vm_compute in ("<<<M2848>>>" ++ check ([65533; 65533; 65533; 17]%N ++ runes_of_ascii "Q" ++ [65533]%N ++ runes_of_ascii "%" ++ [0]%N ++ runes_of_ascii "WJ" ++ [65533; 6]%N ++ runes_of_ascii "_g" ++ [65533; 17]%N ++ runes_of_ascii "?x" ++ [18]%N ++ runes_of_ascii "n" ++ [65533; 65533; 24; 4]%N ++ runes_of_ascii "Vs" ++ [65533]%N)).
+Eval vm_compute in ("<<<M446>>>" ++ check (runes_of_ascii "packet As /// triple
 {
-B b
-
-`tab
-	x` ,
-B 
-`tab
-	x`
-,
-    repeat
-B bs 
-`tab
-	x`
-
-, } ")).
-Eval vm_compute in ("<<<M440>>>" ++ check (runes_of_ascii "options
-{
-matchKey = 42/// triple
-x='0' ;
-// packet A { u8 x, }
-//
-charz")).
-Eval vm_compute in ("<<<M792>>>" ++ check (runes_of_ascii "packet A {
-  match k as n {
-    [""a"", 22, ""c c""] : B,
-    2 : C
-  },
-}")).
-Eval vm_compute in ("<<<M790>>>" ++ check (runes_of_ascii "packet A {
-  match k as n {
-    [1, ""bb"", 007] : B,
-    2 : C
-  },
-}")).
-Eval vm_compute in ("<<<M362>>>" ++ check (runes_of_ascii "//x
-MetaData msg_type
-    {// a // b
-uint32 pack
-`tab	here`, }
-")).
-Eval vm_compute in ("<<<M1376>>>" ++ check (runes_of_ascii "root packet P {
-    repeat string ss,
-    repeat u16 ns,
 }
 ")).
-Eval vm_compute in ("<<<M138>>>" ++ check (runes_of_ascii "MetaData
-    /// triple
-    falsey { uint16 Z9_ ,
-}")).
-Eval vm_compute in ("<<<M1094>>>" ++ check (runes_of_ascii "packet A { char[ // a
- 3 // b
- ] // c
- x, }")).
-Eval vm_compute in ("<<<M1114>>>" ++ check (runes_of_ascii "MetaData zchar { zchar[ 3 ] // c
-Pad , }")).
-Eval vm_compute in ("<<<M1608>>>" ++ check (runes_of_ascii "  // c
-		packet lengthOf	{
-
-    }")).
-Eval vm_compute in ("<<<M1773>>>" ++ check (runes_of_ascii "packet A
-    { u8 x
-`x
-`  ,
-	} ")).
-Eval vm_compute in ("<<<M1037>>>" ++ check (runes_of_ascii "packet A {
- u8 x `d" ++ [12]%N ++ runes_of_ascii "`, // c" ++ [12]%N ++ runes_of_ascii "
-}")).
-Eval vm_compute in ("<<<M1977>>>" ++ check (runes_of_ascii "
-
-  packet	A 
-{  }  // c" ++ [160]%N ++ runes_of_ascii "
+Eval vm_compute in ("<<<M2834>>>" ++ check (runes_of_ascii "' ' @rightPad @lengthOf(")).
+Eval vm_compute in ("<<<M378>>>" ++ check (runes_of_ascii "root packet
+tag {	}
 ")).
-Eval vm_compute in ("<<<M1978>>>" ++ check (runes_of_ascii "packet A {
-}// a// b// c")).
-Eval vm_compute in ("<<<M1060>>>" ++ check (runes_of_ascii "packet A {
+Eval vm_compute in ("<<<M36>>>" ++ check (runes_of_ascii "MetaData roots {
 }
-// c x")).
-Eval vm_compute in ("<<<M1035>>>" ++ check (runes_of_ascii "packet A {
-}
-// c" ++ [12]%N)).
-Eval vm_compute in ("<<<M1048>>>" ++ check (runes_of_ascii "packet A {
-}// c" ++ [65279]%N)).
-Eval vm_compute in ("<<<M770>>>" ++ check (runes_of_ascii "uint8 i8")).
-Eval vm_compute in ("<<<M735>>>" ++ check (runes_of_ascii " " ++ [12]%N ++ runes_of_ascii " ")).
+")).
+Eval vm_compute in ("<<<M987>>>" ++ check (runes_of_ascii "packet	chars { }
+
+")).
+Eval vm_compute in ("<<<M3165>>>" ++ check (runes_of_ascii "// c" ++ [12]%N ++ runes_of_ascii "
+packet A {
+}")).
+Eval vm_compute in ("<<<M2812>>>" ++ check ([895]%N ++ runes_of_ascii "(" ++ [65533]%N ++ runes_of_ascii "K@" ++ [65533; 65533; 65533; 65533; 65533; 65533]%N ++ runes_of_ascii "t0" ++ [3]%N ++ runes_of_ascii "a4v")).
+Eval vm_compute in ("<<<M2717>>>" ++ check (runes_of_ascii "6`" ++ [65533; 65533]%N ++ runes_of_ascii "y" ++ [65533; 3; 65533; 65533; 65533; 65533; 65533; 65533; 18; 65533; 65533]%N)).
+Eval vm_compute in ("<<<M2653>>>" ++ check (runes_of_ascii "packet A { } 1")).
+Eval vm_compute in ("<<<M289>>>" ++ check (runes_of_ascii "options { }")).
+Eval vm_compute in ("<<<M2502>>>" ++ check (runes_of_ascii "@leftPadx")).
+Eval vm_compute in ("<<<M2481>>>" ++ check (runes_of_ascii "packets")).
+Eval vm_compute in ("<<<M3666>>>" ++ check (runes_of_ascii "// c" ++ [8239]%N ++ runes_of_ascii "
+")).
+Eval vm_compute in ("<<<M3133>>>" ++ check (runes_of_ascii "// c" ++ [8202]%N)).
+Eval vm_compute in ("<<<M2565>>>" ++ check (runes_of_ascii "a
+b")).
+Eval vm_compute in ("<<<M2563>>>" ++ check (runes_of_ascii "a	b")).
+Eval vm_compute in ("<<<M2718>>>" ++ check (runes_of_ascii "mE")).
